@@ -19,7 +19,8 @@ def label_text(e):
     if isinstance(e, ast.Constant) and isinstance(e.value, str):
         return e.value
     if isinstance(e, ast.JoinedStr):
-        return "".join(p.value if isinstance(p, ast.Constant) else "{}" for p in e.values)
+        return "".join(p.value if isinstance(p, ast.Constant) else (p.value.value if isinstance(p, ast.FormattedValue) and isinstance(p.value, ast.Constant) and isinstance(p.value.value, str) else "{}")
+                       for p in e.values)
     if isinstance(e, ast.BinOp) and isinstance(e.op, ast.Mod):
         return label_text(e.left)
     return None
@@ -32,11 +33,15 @@ class Roles:
         self.methods = cls_methods
         self.param_roles: dict[tuple[str, str], set] = {}
         self.line_names = line_names
+        self.depth = 0
+        self.memo: dict = {}
+        self.opaque: set = set()  # methods whose calls are not followed (the line constructors themselves)
 
-    def env_for(self, func, outer=None):
+    def env_for(self, func, outer=None, params=None):
+        """roles of the names of a function; params: roles of its parameters at ONE call (instead of the union over all callers)"""
         env = dict(outer or {})
         for p in params_of(func):
-            r = self.param_roles.get((func.name, p))
+            r = self.param_roles.get((func.name, p)) if params is None else params.get(p)
             if r is not None:
                 env[p] = set(r)
         # locals: iterate to a fixed point
@@ -81,6 +86,29 @@ class Roles:
                 d |= self.deps(a, env)
             if isinstance(e.func, ast.Attribute) and not (isinstance(e.func.value, ast.Name) and e.func.value.id == "self"):
                 d |= self.deps(e.func.value, env)
+            # a helper method of the reporter (`self.m(...)`): the roles of what it RETURNS for the roles of the arguments at this call (an extracted lookup such as
+            # `self._record(race, task)` has the role of the race, not of every argument); a helper this cannot be done for keeps the union of its arguments
+            callee = self.methods.get(e.func.attr) if isinstance(e.func, ast.Attribute) and isinstance(e.func.value, ast.Name) and e.func.value.id == "self" else None
+            if callee is not None and callee.name not in self.opaque and self.depth < 3 and not callee.args.vararg and not callee.args.kwarg and \
+                    not any(isinstance(a, ast.Starred) for a in e.args) and not any(k.arg is None for k in e.keywords):
+                rets = [r.value for r in walk_body(callee) if isinstance(r, ast.Return) and r.value is not None]
+                penv = {p: frozenset(self.deps(a, env)) for p, a in bind_args(e, callee).items()}
+                key = (callee.name, tuple(sorted(penv.items())))
+                if key not in self.memo:
+                    self.memo[key] = None  # a recursive call keeps the union
+                    self.depth += 1
+                    try:
+                        got = set()
+                        if rets:
+                            cenv = self.env_for(callee, params=penv)
+                            for r in rets:
+                                got |= self.deps(r, cenv)
+                        self.memo[key] = got
+                    finally:
+                        self.depth -= 1
+                got = self.memo[key]
+                if got and got <= d:
+                    return set(got)
             return d
         if isinstance(e, ast.Constant):
             return set()
@@ -112,6 +140,21 @@ class _Styled:
         return f"{self.colour}({self.text!r})"
 
 
+class _Bound:
+    """a method of the analysed class bound to the object it was taken from (`obj.m`; obj is None for a static method), or a module-level function of the analysed module:
+    a callable VALUE of the interpreted code (may be stored in a local, returned in a tuple, looked up in a dict) whose call is interpreted in a fresh environment."""
+
+    def __init__(self, fn, obj, static):
+        self.fn, self.obj, self.static = fn, obj, static
+
+    def __repr__(self):
+        return f"<{self.fn.name}>"
+
+
+def _is_static(fn):
+    return any(dotted(d) == "staticmethod" for d in fn.decorator_list)
+
+
 class _CaseFailed(Exception):
     pass
 
@@ -127,10 +170,16 @@ class _Interp:
     """Evaluation of one small pure function of the analysed source on representative VALUES: control flow by tables.decide, expressions by minieval.ev.
     Local extension of minieval (which interprets no calls of user code): a call of a nested helper function / lambda of the analysed function is interpreted the
     same way (closure = the environment at the call), a callable supplied by the rule is applied, a dotted attribute of an imported module is a symbol (_Sym) whose
-    call yields _Styled(symbol, text); conditional expressions and and/or are evaluated lazily. No function of the repository is executed."""
+    call yields _Styled(symbol, text); conditional expressions and and/or are evaluated lazily. A helper METHOD of the analysed class (`<object>.m`, the object being the
+    Record the rule passes as self; static methods included) and a module-level function of the analysed module are callable values too (_Bound): an extracted helper is
+    interpreted together with its caller, in a fresh environment (parameters only). No function of the repository is executed."""
 
-    def __init__(self):
-        self.trace = []  # (helper node, args, result) of every interpreted nested helper call
+    def __init__(self, methods=None, funcs=None):
+        self.trace = []  # (helper node, args, result) of every interpreted helper call (nested function, method, module-level function)
+        self.applied = []  # (callable value, args, result) of every call of a callable of the analysed code (helpers and lambdas; not the symbols of imported modules)
+        self.methods = methods or {}
+        self.funcs = funcs or {}
+        self.depth = 0
 
     def ev(self, e, env):
         from sa import minieval
@@ -142,7 +191,17 @@ class _Interp:
                 d = dotted(n)
                 if d is not None and d.split(".")[0] not in env:
                     return ast.Constant(value=_Sym(d))
+                if isinstance(n.value, ast.Name) and isinstance(env.get(n.value.id), minieval.Record) and n.attr not in env[n.value.id].fields and n.attr in interp.methods:
+                    m = interp.methods[n.attr]
+                    if any(dotted(d_) not in ("staticmethod",) for d_ in m.decorator_list):
+                        raise minieval.CannotEval(f"decorated method {m.name}")
+                    return ast.Constant(value=_Bound(m, env[n.value.id], _is_static(m)))
                 return self.generic_visit(n)
+
+            def visit_Name(self, n):
+                if isinstance(n.ctx, ast.Load) and n.id not in env and n.id in interp.funcs:
+                    return ast.Constant(value=_Bound(interp.funcs[n.id], None, True))
+                return n
 
             def visit_Lambda(self, n):
                 return ast.Constant(value=n)
@@ -162,10 +221,19 @@ class _Interp:
                 n = self.generic_visit(n)
                 f = n.func
                 fv = f.value if isinstance(f, ast.Constant) else (env.get(f.id) if isinstance(f, ast.Name) else None)
-                if isinstance(fv, (_Sym, ast.FunctionDef, ast.Lambda)) or callable(fv):
-                    if any(isinstance(a, ast.Starred) for a in n.args) or any(k.arg is None for k in n.keywords):
-                        raise minieval.CannotEval(f"call {u(n)[:60]}: star arguments")
-                    return ast.Constant(value=interp.call(fv, [minieval.ev(a, env) for a in n.args], {k.arg: minieval.ev(k.value, env) for k in n.keywords}, env))
+                if isinstance(fv, (_Sym, _Bound, ast.FunctionDef, ast.Lambda)) or callable(fv):
+                    if any(k.arg is None for k in n.keywords):
+                        raise minieval.CannotEval(f"call {u(n)[:60]}: ** arguments")
+                    args = []
+                    for a in n.args:
+                        if isinstance(a, ast.Starred):
+                            v = minieval.ev(a.value, env)
+                            if not isinstance(v, (tuple, list)):
+                                raise minieval.CannotEval(f"call {u(n)[:60]}: * of a non-sequence")
+                            args += list(v)
+                        else:
+                            args.append(minieval.ev(a, env))
+                    return ast.Constant(value=interp.call(fv, args, {k.arg: minieval.ev(k.value, env) for k in n.keywords}, env))
                 return n
 
         return minieval.ev(R().visit(source.clone(e)), env)
@@ -177,32 +245,51 @@ class _Interp:
             if len(args) != 1 or kw:
                 raise minieval.CannotEval(f"{fv.name} applied to {len(args)} argument(s)")
             return _Styled(fv.name, args[0])
+        if isinstance(fv, _Bound):
+            if self.depth > 12:
+                raise minieval.CannotEval(f"call depth at {fv.fn.name}")
+            self.depth += 1
+            try:
+                r = self._apply(fv.fn, ([] if fv.static else [fv.obj]) + list(args), kw, {}, fresh=True)
+            finally:
+                self.depth -= 1
+            self.trace.append((fv.fn, tuple(args), r))
+            self.applied.append((fv, tuple(args), r))
+            return r
         if isinstance(fv, (ast.FunctionDef, ast.Lambda)):
-            a = fv.args
-            names = [x.arg for x in a.args]
-            if a.vararg or a.kwarg or a.kwonlyargs or a.posonlyargs or len(args) > len(names):
-                raise minieval.CannotEval(f"signature of {getattr(fv, 'name', 'lambda')}")
-            bound = dict(zip(names, args))
-            for k_, v_ in kw.items():
-                if k_ not in names or k_ in bound:
-                    raise minieval.CannotEval(f"argument {k_} of {getattr(fv, 'name', 'lambda')}")
-                bound[k_] = v_
-            defaults = dict(zip(names[len(names) - len(a.defaults):], a.defaults))
-            for nm in names:
-                if nm not in bound:
-                    if nm not in defaults:
-                        raise minieval.CannotEval(f"argument {nm} of {getattr(fv, 'name', 'lambda')} not supplied")
-                    bound[nm] = self.ev(defaults[nm], env)
-            local = dict(env)
-            local.update(bound)
-            r = self.ev(fv.body, local) if isinstance(fv, ast.Lambda) else self.run(_own_stmts(fv), local)
+            r = self._apply(fv, args, kw, env)
             if isinstance(fv, ast.FunctionDef):
                 self.trace.append((fv, tuple(args), r))
+            self.applied.append((fv, tuple(args), r))
             return r
         try:
             return fv(*args, **kw)
         except (TypeError, ValueError, ArithmeticError) as x:
             raise minieval.CannotEval(f"supplied callable: {type(x).__name__}")
+
+    def _apply(self, fv, args, kw, env, fresh=False):
+        """the body of a function / lambda of the analysed code on argument values; fresh: a method or module-level function sees its parameters only, a nested helper the
+        environment of the call (closure)."""
+        from sa import minieval
+
+        a = fv.args
+        names = [x.arg for x in a.args]
+        if a.vararg or a.kwarg or a.kwonlyargs or a.posonlyargs or len(args) > len(names):
+            raise minieval.CannotEval(f"signature of {getattr(fv, 'name', 'lambda')}")
+        bound = dict(zip(names, args))
+        for k_, v_ in kw.items():
+            if k_ not in names or k_ in bound:
+                raise minieval.CannotEval(f"argument {k_} of {getattr(fv, 'name', 'lambda')}")
+            bound[k_] = v_
+        defaults = dict(zip(names[len(names) - len(a.defaults):], a.defaults))
+        for nm in names:
+            if nm not in bound:
+                if nm not in defaults:
+                    raise minieval.CannotEval(f"argument {nm} of {getattr(fv, 'name', 'lambda')} not supplied")
+                bound[nm] = self.ev(defaults[nm], env)
+        local = {} if fresh else dict(env)
+        local.update(bound)
+        return self.ev(fv.body, local) if isinstance(fv, ast.Lambda) else self.run(_own_stmts(fv), local)
 
     def _bind(self, t, v, env):
         from sa import minieval
@@ -303,7 +390,10 @@ def run(chk):
         "and coloured by direction exactly when its printed value is non-zero, relative and absolute cell agree in sign and colour, swapping flips both, self comparison is an unsigned "
         "neutral zero, the plain cell is the rich cell's text; plain flag read only for colour selection; same formatter for file (plain) and console (rich); "
         "a line only when both values are not None; scalar metric guards use `is None`, not truthiness; optional members of a stored task result (throughput mean, processing time) are "
-        "read with a default in both races (reads evaluated on a record without them)."
+        "read with a default in both races (reads evaluated on a record without them). Roles are derived from data flow and positions, not from names: parameters of _line by "
+        "position, the mode attribute as the one _metrics_table assigns from its flag parameter, races by dataflow from report(); helper methods / static methods / module-level "
+        "functions that _diff and _line call are interpreted together with them, records kept in hoisted locals or returned by extracted helper methods are followed, lines built in a "
+        "loop over a literal table are expanded per row; a construct that cannot be located is reported as not recognised (inconclusive), never as a finding."
     )
     chk.not_decided = "numeric formatting, tabulate output, the content of the race results themselves."
     CR = rp.cls("ComparisonReporter")
@@ -314,6 +404,19 @@ def run(chk):
     rep = cm.get("report")
     if not all([line, diff, mt, rep]):
         raise AnchorMissing("ComparisonReporter._line/_diff/_metrics_table/report")
+
+    # the attribute that carries the plain / rich mode, by role: the attribute of the reporter that _metrics_table assigns from its third parameter (`plain` by default)
+    mtp_ = params_of(mt)
+    FLAG = next((t.attr for n in walk_body(mt) if isinstance(n, ast.Assign) and len(mtp_) >= 4 and {x.id for x in ast.walk(n.value) if isinstance(x, ast.Name)} - {"bool"} == {mtp_[3]}
+                 for t in n.targets if isinstance(t, ast.Attribute) and isinstance(t.value, ast.Name) and t.value.id == mtp_[0]), "plain")
+
+    def located(cond, rule, what, node, detail):
+        """a LOCATING obligation: discharged when the constructs the rule speaks about were found in the expected number; when they were not, the shape is not recognised
+        (inconclusive) - finding nothing is never a finding."""
+        if cond:
+            chk.ob(rule, what, True, node, detail)
+        else:
+            chk.unknown(rule, f"{what}: {detail} - fewer than on the confirmed tree, the constructs are spelled in a shape this rule does not recognise", node)
 
     # call sites of _line (self._line or a local alias of it), including nested helper functions
     sites = []
@@ -330,25 +433,95 @@ def run(chk):
     chk.rule("O20.1", "every comparison-line construction passes a constant direction flag: increase-is-improvement iff the metric label names a throughput; all others "
              "(latency, times, error rate, sizes, counts) decrease-is-improvement", 35,
              "an improvement of that metric is coloured as a regression (and vice versa)")
+    lp = params_of(line)
+    if len(lp) < 8:
+        raise AnchorMissing("_line(self, metric, baseline, contender, task, unit, treat_increase_as_improvement, formatter)")
+    # the roles of _line's parameters are their POSITIONS (metric, baseline, contender, task, unit, direction flag, formatter), whatever they are called
+    P_METRIC, P_BASE, P_CONT, P_TASK, P_UNIT, P_FLAG, P_FMT = lp[1:8]
+    line_defaults = dict(zip(lp[len(lp) - len(line.args.defaults):], line.args.defaults))
+
+    def flag_value(g, e, depth=0):
+        """the boolean a direction-flag expression evaluates to inside function g: a constant, a single-assignment local holding one, a conditional / dict lookup that minieval
+        decides, or a parameter of g that EVERY call of g in the reporter binds to the same boolean (a helper that builds the lines of one direction); None: not resolved."""
+        if e is None:
+            return None
+        e = source.inline_node(e, local_defs(g))
+        if isinstance(e, ast.Constant):
+            return e.value if isinstance(e.value, bool) else None
+        try:
+            v = minieval.ev(e, {})
+            return v if isinstance(v, bool) else None
+        except minieval.CannotEval:
+            pass
+        if isinstance(e, ast.Name) and e.id in params_of(g) and depth < 3:
+            if g.name in cm and cm[g.name] is g:
+                calls = [(h, n) for h in cm.values() for n in ast.walk(h) if isinstance(n, ast.Call) and isinstance(n.func, ast.Attribute) and n.func.attr == g.name and
+                         isinstance(n.func.value, ast.Name) and n.func.value.id in params_of(h)[:1]]
+            else:
+                outer = source.enclosing_func(g)
+                calls = [(outer, n) for n in ast.walk(outer) if isinstance(n, ast.Call) and isinstance(n.func, ast.Name) and n.func.id == g.name] if outer is not None else []
+            gdef = dict(zip(params_of(g)[len(params_of(g)) - len(g.args.defaults):], g.args.defaults))
+            vals = set()
+            for h, n in calls:
+                a_ = bind_args(n, g).get(e.id, gdef.get(e.id))
+                vals.add(flag_value(source.enclosing_func(n) or h, a_, depth + 1))
+            if len(vals) == 1 and None not in vals:
+                return vals.pop()
+        return None
+
+    from sa import minieval
+
+    def table_rows(c):
+        """a line constructed in a loop over a LITERAL table (`for label, attribute in (("Heap used for terms", "memory_terms"), ...)`: an if-chain / a sequence of calls turned
+        into table dispatch) stands for one line per row: the rows as {loop variable: constant}; [{}] for a line outside such a loop, None when a row cannot be bound"""
+        rows = [{}]
+        for a in source.ancestors(c):
+            if isinstance(a, ast.For) and isinstance(a.iter, (ast.Tuple, ast.List)) and a.iter.elts and not any(c is x for s_ in a.orelse for x in ast.walk(s_)):
+                new = []
+                for el in a.iter.elts:
+                    if isinstance(a.target, ast.Name):
+                        bnd = {a.target.id: el}
+                    elif isinstance(a.target, (ast.Tuple, ast.List)) and isinstance(el, (ast.Tuple, ast.List)) and len(el.elts) == len(a.target.elts) and all(isinstance(t_, ast.Name) for t_ in a.target.elts):
+                        bnd = {t_.id: v_ for t_, v_ in zip(a.target.elts, el.elts)}
+                    else:
+                        return None
+                    new += [dict(bnd, **r_) for r_ in rows]
+                rows = new
+        return rows
+
     n_thr = 0
+    site_label = {}
     for f, c in sites:
         b = bind_args(c, line)
-        lab = label_text(b.get("metric")) if b.get("metric") is not None else None
-        flag = b.get("treat_increase_as_improvement")
-        if lab is None:
-            chk.unknown("O20.1", f"metric label of {short(c, 60)} is not a (formatted) string constant", c)
-            continue
-        is_thr = "throughput" in lab.lower()
-        n_thr += is_thr
-        ok = isinstance(flag, ast.Constant) and isinstance(flag.value, bool) and flag.value == is_thr
-        chk.ob("O20.1", f"'{lab}': {'higher' if is_thr else 'lower'} is better", ok, c, f"flag={u(flag) if flag is not None else None}", key=f"{_R}:{source.qualname(c)}:direction:{lab}")
-    chk.ob("O20.1", "throughput lines located", n_thr >= 5, CR, f"{n_thr} throughput line(s) of {len(sites)}")
+        flag = b.get(P_FLAG, line_defaults.get(P_FLAG))
+        rows = table_rows(c) if b.get(P_METRIC) is not None and label_text(b.get(P_METRIC)) is None else [{}]
+        for row_ in rows or [{}]:
+            lab_e = source.inline_node(b.get(P_METRIC), row_) if b.get(P_METRIC) is not None and row_ else b.get(P_METRIC)
+            lab = label_text(lab_e) if lab_e is not None else None
+            if lab is None:
+                chk.unknown("O20.1", f"metric label of {short(c, 60)} is not a (formatted) string constant", c)
+                break
+            site_label.setdefault(id(c), lab)
+            is_thr = "throughput" in lab.lower()
+            n_thr += is_thr
+            flag_ = source.inline_node(flag, row_) if flag is not None and row_ else flag
+            fv_ = flag_value(source.enclosing_func(c) or f, flag_)
+            if fv_ is None:
+                # the flag WAS not resolved to a boolean: not recognised, never a finding
+                chk.unknown("O20.1", f"'{lab}': the direction flag `{short(flag, 50) if flag is not None else None}` cannot be resolved to a boolean constant", c)
+                continue
+            chk.ob("O20.1", f"'{lab}': {'higher' if is_thr else 'lower'} is better", fv_ == is_thr, c, f"flag={u(flag)}" + ("" if isinstance(flag, ast.Constant) else f" = {fv_}"), key=f"{_R}:{source.qualname(c)}:direction:{lab}")
+    if n_thr >= 5:
+        chk.ob("O20.1", "throughput lines located", True, CR, f"{n_thr} throughput line(s) of {len(sites)}")
+    else:
+        chk.unknown("O20.1", f"only {n_thr} throughput line(s) of {len(sites)} located by their label (at least 5 expected: min / mean / median / max throughput per task, transform throughput)", CR)
 
     # ---- O20.2 operand roles -------------------------------------------------------------------------------------------------------------
     chk.rule("O20.2", "at each comparison line the baseline operand depends only on the baseline race and the contender operand only on the contender race "
              "(role dataflow from report(): first race = baseline, second = contender)", 35,
              "baseline and contender swapped for one metric: the sign and colour of its difference are inverted")
     roles = Roles(cm, None)
+    roles.opaque = {line.name, diff.name}
     # roots: report(r1, r2) -> GlobalStats(r1.results) / GlobalStats(r2.results) -> _metrics_table(b, c, plain)
     rps = params_of(rep)
     if len(rps) < 3:
@@ -379,11 +552,15 @@ def run(chk):
         if inner is not f and inner is not None:
             env = roles.env_for(inner, outer=env)
         b = bind_args(c, line)
-        db, dc = roles.deps(b.get("baseline"), env), roles.deps(b.get("contender"), env)
-        lab = label_text(b.get("metric")) or "?"
+        db, dc = roles.deps(b.get(P_BASE), env), roles.deps(b.get(P_CONT), env)
+        lab = label_text(b.get(P_METRIC)) or site_label.get(id(c)) or "?"
+        detail = f"baseline operand `{short(b.get(P_BASE), 50) if b.get(P_BASE) is not None else None}` <- {sorted(db)}; contender operand `{short(b.get(P_CONT), 50) if b.get(P_CONT) is not None else None}` <- {sorted(dc)}"
+        if "C" not in db and "B" not in dc and (not db or not dc):
+            # no race reaches an operand by the dataflow this rule follows: the role is not derived (not recognised); a finding needs an operand fed by the WRONG race
+            chk.unknown("O20.2", f"'{lab}': the race an operand comes from cannot be derived: {detail}", c)
+            continue
         ok = db == {"B"} and dc == {"C"}
-        chk.ob("O20.2", f"'{lab}': operands", ok, c, f"baseline operand `{short(b.get('baseline'), 50)}` <- {sorted(db)}; contender operand `{short(b.get('contender'), 50)}` <- {sorted(dc)}",
-               key=f"{_R}:{source.qualname(c)}:roles:{lab}")
+        chk.ob("O20.2", f"'{lab}': operands", ok, c, detail, key=f"{_R}:{source.qualname(c)}:roles:{lab}")
     # sibling agreement inside each reporting method: whatever is selected from the baseline race is selected from the contender race too (same attribute / key / call chain)
     n_sym = 0
     for name, f in cm.items():
@@ -397,18 +574,53 @@ def run(chk):
             continue
         pb, pc = [pair[0][0]], [pair[0][1]]
 
+        fdefs = local_defs(f)
+
+        def chain_base(e):
+            """the name a pure selection chain (attribute / subscript / method call on the receiver, getattr(receiver, ...)) starts from, else None"""
+            while True:
+                if isinstance(e, (ast.Attribute, ast.Subscript)):
+                    e = e.value
+                elif isinstance(e, ast.Call) and isinstance(e.func, ast.Attribute):
+                    e = e.func.value
+                elif isinstance(e, ast.Call) and dotted(e.func) == "getattr" and e.args:
+                    e = e.args[0]
+                else:
+                    return e.id if isinstance(e, ast.Name) else None
+
+        def derived(root):
+            """the race parameter and the single-assignment locals that hold a record SELECTED from it (a hoisted lookup such as `rec = race.metrics(task)["throughput"]`):
+            what is later selected from such a local is selected from the race"""
+            names = {root}
+            for _ in range(4):
+                names |= {k_ for k_, v_ in fdefs.items() if chain_base(v_) in names and not isinstance(v_, ast.Name)}
+            return names
+
         def selectors(root):
             out = set()
+            names = derived(root)
             for n in ast.walk(f):
-                if isinstance(n, ast.Name) and n.id == root and isinstance(n.ctx, ast.Load):
+                if isinstance(n, ast.Name) and n.id in names and isinstance(n.ctx, ast.Load):
                     top = n
                     while isinstance(source.parent(top), (ast.Attribute, ast.Subscript)) and source.parent(top).value is top or \
                             (isinstance(source.parent(top), ast.Call) and source.parent(top).func is top):
                         top = source.parent(top)
                     if isinstance(source.parent(top), ast.Call) and dotted(source.parent(top).func) == "getattr" and source.parent(top).args and source.parent(top).args[0] is top:
                         top = source.parent(top)
-                    t_ = ast.unparse(top)
-                    out.add(t_.replace(root, "<race>"))
+                    # an extracted lookup `self.m(<race>, ...)[...]`: the helper call is part of the selection when it is handed this race and not the other one
+                    hc = source.parent(top)
+                    if top is n and isinstance(hc, ast.Call) and any(a_ is top for a_ in hc.args) and isinstance(hc.func, ast.Attribute) and isinstance(hc.func.value, ast.Name) and \
+                            hc.func.value.id == "self" and hc.func.attr in cm and cm[hc.func.attr] is not line and \
+                            not any(isinstance(x, ast.Name) and x.id in (set(pb + pc) - {root}) for x in ast.walk(hc)) and \
+                            isinstance(source.parent(hc), (ast.Attribute, ast.Subscript)):
+                        top = hc
+                        while isinstance(source.parent(top), (ast.Attribute, ast.Subscript)) and source.parent(top).value is top or \
+                                (isinstance(source.parent(top), ast.Call) and source.parent(top).func is top):
+                            top = source.parent(top)
+                    if top is n and n.id != root:
+                        continue  # the bare local handed on: its selection is the one of its definition
+                    t_ = source.inline(top, {k_: fdefs[k_] for k_ in names if k_ in fdefs}) if n.id != root else ast.unparse(top)
+                    out.add(re.sub(r"\b" + re.escape(root) + r"\b", "<race>", t_))
             return out
 
         # the unit of a line is taken from one side only (by design: both races measure the same thing); that selection is not a compared value
@@ -422,7 +634,7 @@ def run(chk):
         ok = not only_b and not only_c
         chk.ob("O20.2", f"{name}: the same selections are made from the baseline and from the contender race", ok, f,
                "" if ok else f"only from the baseline: {only_b}; only from the contender: {only_c} — the line compares two different metrics", key=f"{_R}:ComparisonReporter.{name}:symmetric-selectors")
-    chk.ob("O20.2", "reporting methods with both races located", n_sym >= 10, rep, f"{n_sym} method(s)")
+    located(n_sym >= 10, "O20.2", "reporting methods with both races located", rep, f"{n_sym} method(s)")
     # report(): GlobalStats(r1.results) first
     mcalls = [n for n in walk_body(rep) if isinstance(n, ast.Call) and u(n.func) == "self._metrics_table"]
     renv = roles.env_for(rep)
@@ -430,8 +642,12 @@ def run(chk):
     if len(mtp) < 4:
         raise AnchorMissing("_metrics_table(self, baseline_stats, contender_stats, plain)")
     mbind = [bind_args(c, mt) for c in mcalls]
-    ok = len(mcalls) == 2 and all(b_.get(mtp[1]) is not None and b_.get(mtp[2]) is not None and roles.deps(b_[mtp[1]], renv) == {"B"} and roles.deps(b_[mtp[2]], renv) == {"C"} for b_ in mbind)
-    chk.ob("O20.2", "both tables built from (baseline, contender) in that order", ok, mcalls[0] if mcalls else rep, "")
+    mroles = [(roles.deps(b_.get(mtp[1]), renv), roles.deps(b_.get(mtp[2]), renv)) for b_ in mbind]
+    if not mcalls or any((not db_ or not dc_) and "C" not in db_ and "B" not in dc_ for db_, dc_ in mroles):
+        chk.unknown("O20.2", f"the race(s) handed to _metrics_table cannot be derived ({len(mcalls)} call(s) in report(); roles {[(sorted(x), sorted(y)) for x, y in mroles]})", mcalls[0] if mcalls else rep)
+    else:
+        chk.ob("O20.2", "both tables built from (baseline, contender) in that order", all(db_ == {"B"} and dc_ == {"C"} for db_, dc_ in mroles), mcalls[0],
+               "; ".join(f"({sorted(x)}, {sorted(y)})" for x, y in mroles))
 
     # ---- O20.3 difference and colours ----------------------------------------------------------------------------------------------------------------
     chk.rule("O20.3", "_diff decided on VALUES (its own statements evaluated for representative baseline / contender pairs incl. zero and negative ones): d == contender - baseline "
@@ -447,18 +663,32 @@ def run(chk):
 
     own_stmts = _own_stmts
 
-    # site anchors only (the decisions below are evaluated on values, never read off these statements): the top-level statement of _diff that branches on self.plain and
-    # the last top-level decision that returns
-    sel_if = [n for n in diff.body if isinstance(n, ast.If) and any(is_self_attr(x, "plain") for m in ast.walk(n) if isinstance(m, ast.If) for x in ast.walk(m.test))]
-    sel_node = sel_if[0] if sel_if else diff
+    # helpers of _diff: the methods of the reporter reachable from it through `<self>.m` (called or handed on as a value); an extracted helper is analysed with its caller
+    def closure_of(f0):
+        seen, work = [f0], [f0]
+        while work:
+            g = work.pop()
+            recv = set(params_of(g)[:1]) | {CR.name}
+            for n in ast.walk(g):
+                if isinstance(n, ast.Attribute) and isinstance(n.value, ast.Name) and n.value.id in recv and n.attr in cm and cm[n.attr] not in seen:
+                    seen.append(cm[n.attr])
+                    work.append(cm[n.attr])
+        return seen
+
+    diff_closure = closure_of(diff)
+    mod_funcs = {n.name: n for n in rp.tree.body if isinstance(n, ast.FunctionDef)}
+
+    def within(n, funcs):
+        """n lies in one of the functions (or in a function nested in one of them)."""
+        return any(a is f_ for a in source.ancestors(n) for f_ in funcs)
+
+    # site anchors only (the decisions below are evaluated on values, never read off these statements): the statement (of _diff or of a helper of it) that branches on the plain
+    # flag and the last top-level decision of _diff that returns
+    plain_reads = [n for f_ in diff_closure for n in ast.walk(f_) if is_self_attr(n, FLAG) and isinstance(n.ctx, ast.Load)]
+    sel_if = [n for n in diff.body if isinstance(n, ast.If) and any(is_self_attr(x, FLAG) for m in ast.walk(n) if isinstance(m, ast.If) for x in ast.walk(m.test))]
+    sel_node = sel_if[0] if sel_if else (source.enclosing_stmt(plain_reads[0]) if plain_reads else diff)
     final = [n for n in diff.body if isinstance(n, ast.If) and n not in sel_if and any(isinstance(x, ast.Return) for x in ast.walk(n))]
     fnode = final[-1] if final else diff
-    idf = [n for n in diff.body if isinstance(n, ast.FunctionDef) and n.name == "identity"]
-    ok = False
-    if idf and len(params_of(idf[0])) == 1:
-        ib = own_stmts(idf[0])
-        ok = len(ib) == 1 and isinstance(ib[0], ast.Return) and isinstance(ib[0].value, ast.Name) and ib[0].value.id == params_of(idf[0])[0]
-    chk.ob("O20.3", "identity returns its argument", ok, idf[0] if idf else diff, "")
 
     G, S, N = "console.format.green", "console.format.red", "console.format.neutral"
     cells = {}
@@ -468,18 +698,19 @@ def run(chk):
         evaluated on these values; the operands are bound by parameter POSITION (as _line passes them), the mode and formatter by parameter name."""
         k_ = (plain, inc, pct, b, c, fmt)
         if k_ not in cells:
-            it = _Interp()
+            it = _Interp(cm, mod_funcs)
             kw = {pctp: pct}
             if fmt is not None:
                 kw[fmtp] = fmt
             elif dp.index(fmtp) < len(dp) - len(diff.args.defaults):
                 kw[fmtp] = lambda x: x  # _diff declares no default formatter: the identity is supplied by the rule
             try:
-                r = it.call(diff, [minieval.Record(plain=plain), b, c, inc], kw, {})
+                r = it.call(diff, [minieval.Record(**{FLAG: plain}), b, c, inc], kw, {})
             except (Unsupported, UnknownAtom, minieval.CannotEval) as e:
                 if "ZeroDivisionError" not in str(e):
                     raise _CaseFailed(f"_diff(plain={plain}, {b}, {c}, {inc}, as_percentage={pct}): {type(e).__name__}: {e}")
                 cells[k_] = _Cell(crash="ZeroDivisionError", trace=it.trace)
+                cells[k_].applied = it.applied
                 return cells[k_]
             except (TypeError, ValueError, AttributeError, KeyError, IndexError, ArithmeticError, RecursionError) as e:
                 raise _CaseFailed(f"_diff(plain={plain}, {b}, {c}, {inc}, as_percentage={pct}): {type(e).__name__}: {e}")
@@ -489,6 +720,7 @@ def run(chk):
                 cells[k_] = _Cell(None, r, it.trace)
             else:
                 raise _CaseFailed(f"_diff(plain={plain}, {b}, {c}, {inc}, as_percentage={pct}) yields {r!r}: neither a text nor a colour function applied to a text")
+            cells[k_].applied = it.applied
         return cells[k_]
 
     def colour_for(sign, inc):
@@ -629,11 +861,26 @@ def run(chk):
             chk.ob("O20.3", f"mirrored: d = t and d = -t (print as +-{t:.{dec[pct]}f}) are both signed and coloured ({mode})", not m_, fnode, m_, key=f"{_R}:_diff:mirror:{mode}")
     except _CaseFailed as e:
         chk.unknown("O20.3", f"_diff cannot be evaluated on values: {e}", fnode)
-    # _line passes the same operands and flag to both _diff calls, in order
+    # the function in the colour role of PLAIN mode returns its argument. By role, not by name: in every evaluated plain cell, the callable of the analysed code (nested helper,
+    # lambda, method, static method, module-level function) that was applied LAST and whose value is the cell; decided on the (argument, result) pairs of those applications
+    plain_cells = [c_ for k_, c_ in cells.items() if k_[0] is True and not c_.crash]
+    if plain_cells:
+        by_fn = {}
+        for c_ in plain_cells:
+            app = [(fv, a_, r_) for fv, a_, r_ in getattr(c_, "applied", []) if fv is not diff]
+            if app and len(app[-1][1]) == 1 and isinstance(app[-1][1][0], str) and isinstance(app[-1][2], str) and app[-1][2] == c_.text:
+                fv, a_, r_ = app[-1]
+                fn_ = fv.fn if isinstance(fv, _Bound) else fv
+                by_fn.setdefault(id(fn_), (fn_, []))[1].append((a_[0], r_))
+        bad = [f"{getattr(fn_, 'name', 'lambda')}({a_!r}) -> {r_!r}" for fn_, prs in by_fn.values() for a_, r_ in prs if a_ != r_]
+        names_ = sorted({getattr(fn_, "name", "lambda") for fn_, _ in by_fn.values()})
+        chk.ob("O20.3", "identity returns its argument (the function applied to the cell text in plain mode, located by role)", not bad, next(iter(by_fn.values()))[0] if by_fn else sel_node,
+               "; ".join(bad[:3])[:300] if bad else (f"{', '.join(names_)}: {sum(len(prs) for _, prs in by_fn.values())} application(s)" if by_fn else "no function is applied to the text in plain mode"),
+               key=f"{_R}:ComparisonReporter._diff:plain-identity")
+    # _line passes the same operands and flag to both _diff calls, in order, and builds the row [metric, task, baseline, contender, diff, unit, diff %]: decided on VALUES -
+    # the statements of _line are evaluated (helpers and _diff interpreted with it) for sentinel texts and representative operands, both directions, rich and plain, the default
+    # and a linear formatter; cell 4 must be the absolute and cell 6 the relative difference cell that _diff yields for (baseline, contender, flag, formatter) of the line
     dcalls = [n for n in walk_body(line) if isinstance(n, ast.Call) and u(n.func) == "self._diff"]
-    lp = params_of(line)
-    if len(lp) < 8:
-        raise AnchorMissing("_line(self, metric, baseline, contender, task, unit, treat_increase_as_improvement, formatter)")
     ldefs = local_defs(line)
 
     def is_param(e, name):
@@ -649,85 +896,223 @@ def run(chk):
 
     def passes_operands(c):
         b_ = bind_args(c, diff)
-        return not any(isinstance(a, ast.Starred) for a in c.args) and all(b_.get(p_) is not None and is_param(b_[p_], q_) for p_, q_ in ((bpar, lp[2]), (cpar, lp[3]), (flagp, lp[6]), (fmtp, lp[7])))
+        return not any(isinstance(a, ast.Starred) for a in c.args) and all(b_.get(p_) is not None and is_param(b_[p_], q_) for p_, q_ in ((bpar, P_BASE), (cpar, P_CONT), (flagp, P_FLAG), (fmtp, P_FMT)))
 
-    ok = len(dcalls) == 2 and all(passes_operands(c) for c in dcalls) and sorted(str(relative(c)) for c in dcalls) == ["False", "True"]
-    chk.ob("O20.3", "_line -> _diff(baseline, contender, flag, formatter) twice (absolute, relative)", ok, line, "")
     row = [n for n in walk_body(line) if isinstance(n, ast.Return) and isinstance(n.value, ast.List) and len(n.value.elts) == 7]
-    ok = False
+    syn_calls = len(dcalls) == 2 and all(passes_operands(c) for c in dcalls) and sorted(str(relative(c)) for c in dcalls) == ["False", "True"]
+    syn_row = False
     if row:
         el = [ldefs.get(e.id, e) if isinstance(e, ast.Name) and e.id not in lp else e for e in row[0].value.elts]
 
         def formatted(e, name):
-            return isinstance(e, ast.Call) and is_param(e.func, lp[7]) and len(e.args) == 1 and not e.keywords and is_param(e.args[0], name)
+            return isinstance(e, ast.Call) and is_param(e.func, P_FMT) and len(e.args) == 1 and not e.keywords and is_param(e.args[0], name)
 
-        ok = is_param(el[0], lp[1]) and formatted(el[2], lp[2]) and formatted(el[3], lp[3]) and any(isinstance(x, ast.Name) and x.id == lp[4] for x in ast.walk(el[1])) and is_param(el[5], lp[5]) and \
+        syn_row = is_param(el[0], P_METRIC) and formatted(el[2], P_BASE) and formatted(el[3], P_CONT) and any(isinstance(x, ast.Name) and x.id == P_TASK for x in ast.walk(el[1])) and is_param(el[5], P_UNIT) and \
             el[4] in dcalls and relative(el[4]) is False and el[6] in dcalls and relative(el[6]) is True
-    chk.ob("O20.3", "row == [metric, task, baseline, contender, diff, unit, diff %]", ok, row[0] if row else line, "")
+    bad_cells, bad_row, n_rows, why_not = [], [], 0, None
+    try:
+        double_ = lambda x: x * 2  # noqa: E731
+        for plain, inc, (b_, c_), fmt in itertools.product((False, True), (True, False), ((3.0, 5.0), (5.0, 3.0), (2.0, 2.0), (-4.0, 1.5)), (None, double_)):
+            it = _Interp(cm, mod_funcs)
+            kw = {P_FMT: fmt} if fmt is not None else ({} if P_FMT in line_defaults else {P_FMT: (lambda x: x)})
+            try:
+                r = it.call(line, [minieval.Record(**{FLAG: plain}), "<metric>", b_, c_, "<task>", "<unit>", inc], kw, {})
+            except (Unsupported, UnknownAtom, minieval.CannotEval, TypeError, ValueError, AttributeError, KeyError, IndexError, ArithmeticError, RecursionError) as e:
+                raise _CaseFailed(f"_line({b_}, {c_}, flag={inc}, plain={plain}): {type(e).__name__}: {e}")
+            n_rows += 1
+            tag = f"_line('<metric>', {b_}, {c_}, '<task>', '<unit>', {inc}{', x2' if fmt else ''}){' plain' if plain else ''}"
+            if not isinstance(r, (list, tuple)) or len(r) != 7:
+                bad_row.append(f"{tag} -> {r!r}: not a row of 7 cells")
+                continue
+            f_ = fmt or (lambda x: x)
+            want5 = ["<metric>", "<task>", f_(b_), f_(c_), "<unit>"]
+            got5 = [r[0], r[1], r[2], r[3], r[5]]
+            if got5 != want5:
+                bad_row.append(f"{tag} -> {got5} in the metric / task / baseline / contender / unit cells, expected {want5}")
+            for i_, pct in ((4, False), (6, True)):
+                w_ = cell(plain, inc, pct, b_, c_, fmt)
+                got = (r[i_].colour, r[i_].text) if isinstance(r[i_], _Styled) else (None, r[i_])
+                if not w_.crash and got != (w_.colour, w_.text):
+                    bad_cells.append(f"{tag}: cell {i_} is {r[i_]!r}, _diff({b_}, {c_}, {inc}, as_percentage={pct}) is {w_.show()}")
+    except _CaseFailed as e:
+        why_not = str(e)
+    if why_not is None:
+        chk.ob("O20.3", "_line -> _diff(baseline, contender, flag, formatter) twice (absolute, relative)", not bad_cells, line, "; ".join(bad_cells[:2])[:400] if bad_cells else f"{n_rows} row(s) evaluated")
+        chk.ob("O20.3", "row == [metric, task, baseline, contender, diff, unit, diff %]", not bad_row, row[0] if row else line, "; ".join(bad_row[:2])[:400] if bad_row else f"{n_rows} row(s) evaluated")
+    else:
+        # not evaluable: the syntactic reading decides when it recognises the shape, otherwise the shape is not recognised (never a finding)
+        for what, syn in (("_line -> _diff(baseline, contender, flag, formatter) twice (absolute, relative)", syn_calls), ("row == [metric, task, baseline, contender, diff, unit, diff %]", syn_row)):
+            if syn:
+                chk.ob("O20.3", what, True, line, "read off the statements")
+            else:
+                chk.unknown("O20.3", f"{what}: _line cannot be evaluated on values ({why_not}) and is not in the literal shape either", line)
 
     # ---- O20.4 plain vs rich ---------------------------------------------------------------------------------------------------------------------------------
     chk.rule("O20.4", "the plain flag is read only at colour selection; both tables come from the same routine with only that flag differing; the writer applies the same formatter to both "
              "and sends plain to the file, rich to the console", 5,
              "the report file contains colour escape codes or differs from the console output")
-    reads = [n for n in ast.walk(CR) if is_self_attr(n, "plain") and isinstance(n.ctx, ast.Load)]
-    ok = bool(reads) and all(source.enclosing_func(n) is diff for n in reads)
-    chk.ob("O20.4", "self.plain read only in _diff", ok, reads[0] if reads else CR, f"{len(reads)} read(s)")
+    # "at colour selection" = in _diff or in a helper method reachable from it (an extracted colour-selection helper is part of the evaluated cell: the value tables of O20.3
+    # interpret it together with _diff); a helper that code outside this closure uses as well would let the flag act on something else than the difference cell
+    helpers_shared = [h for h in diff_closure if h is not diff and any(
+        isinstance(n, ast.Attribute) and n.attr == h.name and isinstance(n.value, ast.Name) and n.value.id in (set(params_of(g)[:1]) | {CR.name}) and not within(n, diff_closure)
+        for g in cm.values() for n in ast.walk(g))]
+
+    def confined(nodes, what):
+        """None when every node lies in _diff or an unshared helper of it, else the first offending node (inconclusive when it lies in a shared helper)."""
+        told = set()
+        for n in nodes:
+            if not within(n, diff_closure):
+                return n
+            if within(n, helpers_shared) and source.enclosing_func(n).name not in told:
+                told.add(source.enclosing_func(n).name)
+                chk.unknown("O20.4", f"{what} in `{source.enclosing_func(n).name}`, a helper of _diff that is also used outside the difference cell", n)
+        return None
+
+    # a read of the flag: `<receiver>.plain`, the receiver being the first parameter of the method the read lies in (whatever it is called)
+    reads = [n for m_ in cm.values() for n in ast.walk(m_) if isinstance(n, ast.Attribute) and n.attr == FLAG and isinstance(n.ctx, ast.Load) and isinstance(n.value, ast.Name) and
+             n.value.id in params_of(m_)[:1]]
+    if not reads:
+        chk.unknown("O20.4", "no read of the plain flag located in the comparison reporter (how does the file table differ from the console table?)", CR)
+    else:
+        off = confined(reads, "the plain flag is read")
+        chk.ob("O20.4", "self.plain read only in _diff (or a helper method only _diff uses)", off is None, off or reads[0],
+               f"{len(reads)} read(s)" + ("" if off is None else f"; read in {source.qualname(off)}"))
     # file output == console output without colour codes, at the cell: every _diff case evaluated above (value tables of O20.3, rich and plain) gave the same text in both
     # modes and no colour function in plain mode
     if n_cases[0]:
         chk.ob("O20.4", "in plain mode every evaluated difference cell is the text of the rich cell without a colour function", not plain_mismatch, sel_node,
                f"{n_cases[0]} case(s)" if not plain_mismatch else "; ".join(plain_mismatch[:3])[:400], key=f"{_R}:ComparisonReporter._diff:plain-equals-rich-text")
     # every colour function assigned in the plain arm is identity — covered by the table; additionally no colour call outside _diff
-    cols = [n for n in ast.walk(CR) if isinstance(n, ast.Attribute) and u(n).startswith("console.format.") and source.enclosing_func(n) is not diff and source.enclosing_func(n) is not None]
-    chk.ob("O20.4", "no colour formatting outside _diff in the comparison reporter", not cols, cols[0] if cols else CR, "")
-    ok = len(mcalls) == 2
-    if ok:
-        a, b = mbind
-        pa, pb = a.get(mtp[3]), b.get(mtp[3])
-        ok = all(a.get(p_) is not None and b.get(p_) is not None and u(a[p_]) == u(b[p_]) for p_ in (mtp[1], mtp[2])) and isinstance(pa, ast.Constant) and isinstance(pb, ast.Constant) and \
-            {pa.value, pb.value} == {True, False} and isinstance(pa.value, bool) and isinstance(pb.value, bool)
-    chk.ob("O20.4", "both tables from the same routine, only `plain` differs", ok, mcalls[0] if mcalls else rep, "")
-    sets = [n for n in walk_body(mt) if isinstance(n, ast.Assign) and any(is_self_attr(t, "plain") for t in n.targets)]
-    # "before building lines": an unconditional top-level assignment that no call of a method of the reporter precedes (logging and other statements in front do not matter)
-    ok = len(sets) == 1 and isinstance(sets[0].value, ast.Name) and sets[0].value.id == mtp[3] and sets[0] in mt.body and \
-        not any(isinstance(x, ast.Call) and isinstance(x.func, ast.Attribute) and isinstance(x.func.value, ast.Name) and x.func.value.id == params_of(mt)[0] and x.func.attr in cm
-                for s_ in mt.body[: mt.body.index(sets[0])] for x in ast.walk(s_))
-    chk.ob("O20.4", "_metrics_table sets the flag from its parameter before building lines", ok, sets[0] if sets else mt, "")
-    wr = cm.get("_write_report")
+    cols = [n for n in ast.walk(CR) if isinstance(n, ast.Attribute) and u(n).startswith("console.format.") and source.enclosing_func(n) is not None]
+    off = confined(cols, "a colour function is selected")
+    chk.ob("O20.4", "no colour formatting outside _diff (and the helper methods only _diff uses) in the comparison reporter", off is None, off or CR, "" if off is None else f"in {source.qualname(off)}")
     rdefs = local_defs(rep)
-    wcall = [n for n in walk_body(rep) if isinstance(n, ast.Call) and u(n.func) == "self._write_report"]
-    ok = False
-    if wcall and wr is not None and len(mcalls) == 2:
-        bw = bind_args(wcall[0], wr)
-        wps = params_of(wr)
 
-        def plain_of(e):
-            d = rdefs.get(e.id) if isinstance(e, ast.Name) else e
-            p_ = bind_args(d, mt).get(mtp[3]) if isinstance(d, ast.Call) and u(d.func) == "self._metrics_table" else None
-            return p_.value if isinstance(p_, ast.Constant) else None
+    def plain_arg(c):
+        """the boolean a _metrics_table call passes as its plain flag (through single-assignment locals of report()), None when it is not a constant"""
+        e = bind_args(c, mt).get(mtp[3])
+        e = source.inline_node(e, rdefs) if e is not None else None
+        return e.value if isinstance(e, ast.Constant) and isinstance(e.value, bool) else None
 
-        wsr = [n for n in walk_body(wr) if isinstance(n, ast.Call) and last_attr(n.func) == "write_single_report"]
-        if wsr:
-            dp_, dr_ = arg_of(wsr[0], None, "data_plain"), arg_of(wsr[0], None, "data_rich")
-            ok = dp_ is not None and dr_ is not None and bw.get(u(dp_)) is not None and bw.get(u(dr_)) is not None and plain_of(bw[u(dp_)]) is True and plain_of(bw[u(dr_)]) is False
-    chk.ob("O20.4", "plain table -> data_plain, rich table -> data_rich", ok, wcall[0] if wcall else rep, "")
+    if len(mcalls) != 2 or any(plain_arg(c) is None for c in mcalls):
+        chk.unknown("O20.4", f"the two tables are not built by two _metrics_table calls with a constant plain flag in report() ({len(mcalls)} call(s) located)", mcalls[0] if mcalls else rep)
+    else:
+        a, b = mbind
+        same = all(a.get(p_) is not None and b.get(p_) is not None and source.inline(a[p_], rdefs) == source.inline(b[p_], rdefs) for p_ in (mtp[1], mtp[2]))
+        chk.ob("O20.4", "both tables from the same routine, only `plain` differs", same and {plain_arg(c) for c in mcalls} == {True, False}, mcalls[0],
+               f"plain flags {[plain_arg(c) for c in mcalls]}" + ("" if same else "; the race arguments differ"))
+    recv_mt = params_of(mt)[0]
+    sets = [n for n in walk_body(mt) if isinstance(n, ast.Assign) and any(isinstance(t, ast.Attribute) and t.attr == FLAG and isinstance(t.value, ast.Name) and t.value.id == recv_mt for t in n.targets)]
+    if not sets:
+        chk.unknown("O20.4", "_metrics_table does not assign the plain flag: the flag reaches the difference cells in a way this rule does not follow", mt)
+    else:
+        # "before building lines": an unconditional top-level assignment that no call of a method of the reporter precedes (logging and other statements in front do not matter);
+        # the assigned value is the parameter (decided on values: it evaluates to True for True and to False for False)
+        try:
+            from_param = len(sets) == 1 and all(minieval.ev(sets[0].value, {mtp[3]: v_}) is v_ for v_ in (True, False))
+        except minieval.CannotEval:
+            from_param = None
+        if from_param is None:
+            chk.unknown("O20.4", f"the value `{short(sets[0].value, 50)}` assigned to the plain flag cannot be evaluated from the parameter", sets[0])
+        else:
+            ok = from_param and sets[0] in mt.body and \
+                not any(isinstance(x, ast.Call) and isinstance(x.func, ast.Attribute) and isinstance(x.func.value, ast.Name) and x.func.value.id == recv_mt and x.func.attr in cm
+                        for s_ in mt.body[: mt.body.index(sets[0])] for x in ast.walk(s_))
+            chk.ob("O20.4", "_metrics_table sets the flag from its parameter before building lines", ok, sets[0], "")
     ws = rp.func("write_single_report")
     if not {"data_plain", "data_rich"} <= set(params_of(ws)):
         raise AnchorMissing("write_single_report(..., data_plain, data_rich)")
-    # the formatter by role: the local called on (headers, <one of the two data parameters>); both outputs must go through the same one
-    fm = [n for n in walk_body(ws) if isinstance(n, ast.Call) and isinstance(n.func, ast.Name) and len(n.args) == 2 and not n.keywords and
-          isinstance(n.args[1], ast.Name) and n.args[1].id in ("data_plain", "data_rich")]
-    to_console = [n for n in fm if isinstance(source.parent(n), ast.Call) and last_attr(source.parent(n).func) == "print_internal"]
-    to_file = [n for n in fm if isinstance(source.parent(n), ast.Call) and last_attr(source.parent(n).func) in ("writelines", "write")]
-    ok = len(to_console) == 1 and len(to_file) == 1 and u(to_console[0].args[1]) == "data_rich" and u(to_file[0].args[1]) == "data_plain" and u(to_console[0].args[0]) == u(to_file[0].args[0]) and \
-        to_console[0].func.id == to_file[0].func.id
-    chk.ob("O20.4", "same formatter: rich -> console, plain -> file", ok, ws, "")
+    wr = cm.get("_write_report")
+    wcall = [n for n in walk_body(rep) if isinstance(n, ast.Call) and isinstance(n.func, ast.Attribute) and n.func.attr == "_write_report"]
+    wsr = [n for n in walk_body(wr) if isinstance(n, ast.Call) and last_attr(n.func) == "write_single_report"] if wr is not None else []
+    verdict = None
+    if wcall and wsr:
+        bw, bs = bind_args(wcall[0], wr), bind_args(wsr[0], ws)
+        wdefs_ = local_defs(wr)
+
+        def table_flag(e):
+            """the plain flag of the table that reaches this argument of write_single_report: parameter of _write_report -> argument in report() -> _metrics_table call"""
+            e = source.inline_node(e, wdefs_) if e is not None else None
+            e = bw.get(e.id) if isinstance(e, ast.Name) else None
+            e = source.inline_node(e, rdefs) if e is not None else None
+            return plain_arg(e) if isinstance(e, ast.Call) and isinstance(e.func, ast.Attribute) and e.func.attr == "_metrics_table" else None
+
+        got = (table_flag(bs.get("data_plain")), table_flag(bs.get("data_rich")))
+        verdict = None if None in got else got == (True, False)
+    if verdict is None:
+        chk.unknown("O20.4", "which table (plain / rich) reaches data_plain and data_rich of write_single_report cannot be derived (report() -> _write_report -> write_single_report)", wcall[0] if wcall else rep)
+    else:
+        chk.ob("O20.4", "plain table -> data_plain, rich table -> data_rich", verdict, wcall[0], f"(plain flag of data_plain, of data_rich) = {got}")
+    # the formatter by role: the callable applied to (headers, <one of the two data parameters>) whose result reaches the console sink resp. the file sink (directly or through a
+    # single-assignment local); both outputs must go through the same one
+    wsdefs = local_defs(ws)
+
+    def rendered_into(sinks):
+        out = []
+        for n in walk_body(ws):
+            if isinstance(n, ast.Call) and last_attr(n.func) in sinks:
+                for a_ in list(n.args) + [k_.value for k_ in n.keywords]:
+                    seen_, todo = [], [a_]
+                    while todo and len(seen_) < 400:
+                        e_ = todo.pop()
+                        for x in ast.walk(e_):
+                            seen_.append(x)
+                            if isinstance(x, ast.Name) and isinstance(x.ctx, ast.Load) and x.id in wsdefs and not (isinstance(source.parent(x), ast.Call) and source.parent(x).func is x):
+                                todo.append(wsdefs[x.id])  # a local that holds the rendered text
+                    for x in seen_:
+                        if isinstance(x, ast.Call) and isinstance(x.func, ast.Name) and len(x.args) == 2 and not x.keywords and isinstance(x.args[1], ast.Name) and x.args[1].id in ("data_plain", "data_rich"):
+                            out.append(x)
+        return out
+
+    to_console, to_file = rendered_into(("print_internal", "println")), rendered_into(("writelines", "write"))
+    if len(to_console) != 1 or len(to_file) != 1:
+        chk.unknown("O20.4", f"the rendering of the two tables is not located in write_single_report ({len(to_console)} rendered table(s) reach the console, {len(to_file)} the file)", ws)
+    else:
+        ok = u(to_console[0].args[1]) == "data_rich" and u(to_file[0].args[1]) == "data_plain" and u(to_console[0].args[0]) == u(to_file[0].args[0]) and to_console[0].func.id == to_file[0].func.id
+        chk.ob("O20.4", "same formatter: rich -> console, plain -> file", ok, ws, f"console <- {u(to_console[0])}; file <- {u(to_file[0])}")
 
     # ---- O20.5 only common metrics --------------------------------------------------------------------------------------------------------------------------------
     chk.rule("O20.5", "a line is emitted only when both values are not None (4-row table); tasks are the intersection; guards on scalar metric values use `is None`, never truthiness (0 is a value); optional members of a stored task result (throughput mean, processing time) are read with a default in both races", 6,
              "a metric missing in one race is printed (crash on None arithmetic), or a zero-valued metric present in both races is dropped / breaks swap symmetry")
     row_guard = guards(row[0]) if row else []
+
+    def emits(bv, cv):
+        """does _line yield a row for these operand VALUES (its statements evaluated with its helpers)? True also when it goes on to compute with a None operand (the guard let
+        it through: crash on None arithmetic); raises _CaseFailed when _line cannot be evaluated at all."""
+        it = _Interp(cm, mod_funcs)
+        kw = {} if P_FMT in line_defaults else {P_FMT: (lambda x: x)}
+        try:
+            r = it.call(line, [minieval.Record(**{FLAG: False}), "<metric>", bv, cv, "<task>", "<unit>", False], kw, {})
+        except minieval.CannotEval as e:
+            if (bv is None or cv is None) and ("non-numeric" in str(e) or "NoneType" in str(e)):
+                return True
+            raise _CaseFailed(str(e))
+        except (Unsupported, UnknownAtom, TypeError, ValueError, AttributeError, KeyError, IndexError, ArithmeticError, RecursionError) as e:
+            if (bv is None or cv is None) and isinstance(e, TypeError):
+                return True
+            raise _CaseFailed(f"{type(e).__name__}: {e}")
+        return bool(r)
+
+    try:
+        emits(3.0, 5.0)
+        by_value = True
+    except _CaseFailed:
+        by_value = False
     for bn, cn in itertools.product([False, True], repeat=2):
+        inst = f"line when baseline {'None' if bn else 'present'}, contender {'None' if cn else 'present'}"
+        if by_value:
+            # decided on values; "present" includes 0 and negative values (0 is a value: a truthiness guard drops the line)
+            try:
+                got = {(bv, cv): emits(bv, cv) for bv in ([None] if bn else [3.0, 0, -2.5, 0.0]) for cv in ([None] if cn else [5.0, 0, -1.0])}
+            except _CaseFailed as e:
+                chk.unknown("O20.5", f"{inst}: _line cannot be evaluated on values: {e}", line)
+                continue
+            wrong = [k_ for k_, v_ in got.items() if v_ != (not bn and not cn)]
+            chk.ob("O20.5", inst, not wrong, row[0] if row else line, f"emits: {not bn and not cn}" if not wrong else
+                   "; ".join(f"_line(baseline={k_[0]}, contender={k_[1]}) {'emits a line' if got[k_] else 'emits no line'}" for k_ in wrong[:3]) +
+                   (" (a value of 0 must still be compared)" if not bn and not cn else ""))
+            continue
+
         def atom(n, env):
             # `<operand> is [not] None` in either orientation (== / != None read the same); anything else about the operands is not an atom (UnknownAtom)
             if isinstance(n, ast.Compare) and len(n.ops) == 1 and isinstance(n.ops[0], (ast.Is, ast.IsNot, ast.Eq, ast.NotEq)):
@@ -735,56 +1120,109 @@ def run(chk):
                 none = [isinstance(x, ast.Constant) and x.value is None for x in sides]
                 if none.count(True) == 1:
                     other = sides[1 - none.index(True)]
-                    if isinstance(other, ast.Name) and other.id in (lp[2], lp[3]):
-                        is_none = bn if other.id == lp[2] else cn
+                    if isinstance(other, ast.Name) and other.id in (P_BASE, P_CONT):
+                        is_none = bn if other.id == P_BASE else cn
                         return is_none if isinstance(n.ops[0], (ast.Is, ast.Eq)) else not is_none
             return None
 
+        if not row:
+            chk.unknown("O20.5", f"{inst}: _line can neither be evaluated on values nor does it return a literal 7-cell row", line)
+            continue
         try:
             try:
                 # the whole body of _line evaluated for the case: a line is emitted iff the outcome is the 7-element row (early returns / arm order do not matter)
                 o_ = decide(own_stmts(line), atom, {})
-                val = bool(row) and o_.kind == "return" and (o_.node is row[0] or (isinstance(o_.value, ast.List) and len(o_.value.elts) == 7))
+                val = o_.kind == "return" and (o_.node is row[0] or (isinstance(o_.value, ast.List) and len(o_.value.elts) == 7))
             except Unsupported:
-                val = all(bool_eval(t, lambda n: atom(n, {})) == pol for t, pol in row_guard) and bool(row_guard)
-            chk.ob("O20.5", f"line when baseline {'None' if bn else 'present'}, contender {'None' if cn else 'present'}", val == (not bn and not cn), row[0] if row else line, f"emits: {val}")
+                if not row_guard:
+                    chk.unknown("O20.5", f"{inst}: the statements of _line are not a decision this rule can evaluate", line)
+                    continue
+                val = all(bool_eval(t, lambda n: atom(n, {})) == pol for t, pol in row_guard)
+            chk.ob("O20.5", inst, val == (not bn and not cn), row[0], f"emits: {val}")
         except UnknownAtom as e:
-            chk.ob("O20.5", "line guard", False, line, f"guard tests something else than None-ness: {e} (a value of 0 must still be compared)")
-    tl = [n for n in walk_body(mt) if isinstance(n, ast.For) and isinstance(n.iter, ast.Call) and last_attr(n.iter.func) == "tasks"]
-    ok = False
-    detail = ""
-    if tl:
-        from sa import pat as _pat
-        mdefs_ = local_defs(mt)
-        tests = [t_ for n_ in ast.walk(tl[0]) if isinstance(n_, ast.If) for t_ in [n_.test] if isinstance(t_, ast.Compare) and len(t_.ops) == 1 and isinstance(t_.ops[0], (ast.In, ast.NotIn)) and u(t_.left) == u(tl[0].target)]
-        if tests:
-            coll = source.inline_node(tests[0].comparators[0], mdefs_)
-            while isinstance(coll, ast.Call) and dotted(coll.func) in ("set", "list", "tuple", "frozenset", "sorted") and len(coll.args) == 1:
-                coll = coll.args[0]
-            ok = isinstance(coll, ast.Call) and last_attr(coll.func) == "tasks" and u(coll.func.value) != u(tl[0].iter.func.value)
-            detail = f"`{u(tl[0].target)}` of {u(tl[0].iter)} kept when in {u(coll)}"
-            if ok and isinstance(tl[0].target, ast.Name):
+            if re.search(rf"\b({re.escape(P_BASE)}|{re.escape(P_CONT)})\b", str(e)):
+                chk.ob("O20.5", "line guard", False, line, f"guard tests something else than None-ness of an operand: {e} (a value of 0 must still be compared)")
+            else:
+                chk.unknown("O20.5", f"{inst}: the guard of the row tests `{e}`, which this rule cannot decide", line)
+    # per-task lines only for tasks of BOTH races. Shapes: a loop over one race's tasks (directly, through a hoisted local or wrapped in list / sorted / tuple) whose body
+    # tests membership in the other race's tasks (`if t in X: ...` / `if t not in X: continue`), or a loop over a comprehension that filters by that membership
+    mdefs_ = local_defs(mt)
+    menv = roles.env_for(mt)
+    recv_ = params_of(mt)[0]
+
+    def unwrap(e):
+        e = source.inline_node(e, mdefs_)
+        while isinstance(e, ast.Call) and dotted(e.func) in ("set", "list", "tuple", "frozenset", "sorted") and len(e.args) == 1:
+            e = e.args[0]
+        return e
+
+    def tasks_of(e):
+        """(text, role set) of the race whose tasks() this expression is, else None"""
+        e = unwrap(e)
+        if isinstance(e, ast.Call) and isinstance(e.func, ast.Attribute) and e.func.attr == "tasks":
+            return u(e.func.value), frozenset(roles.deps(e.func.value, menv))
+        return None
+
+    def other_race(a_, b_):
+        return a_[0] != b_[0] and (not a_[1] or not b_[1] or (a_[1] != b_[1] and len(a_[1]) == 1 and len(b_[1]) == 1))
+
+    def per_task_calls(stmts_or_nodes, var):
+        return [c_ for e_ in stmts_or_nodes for c_ in ast.walk(e_) if isinstance(c_, ast.Call) and isinstance(c_.func, ast.Attribute) and isinstance(c_.func.value, ast.Name) and
+                c_.func.value.id == recv_ and c_.func.attr in cm and any(isinstance(a_, ast.Name) and a_.id == var for a_ in list(c_.args) + [k_.value for k_ in c_.keywords])]
+
+    tl = []
+    for n in walk_body(mt):
+        if isinstance(n, ast.For) and isinstance(n.target, ast.Name) and per_task_calls(n.body, n.target.id):
+            it_ = unwrap(n.iter)
+            if tasks_of(it_) is not None:
+                tl.append(("loop", n, tasks_of(it_), None))
+            elif isinstance(it_, (ast.ListComp, ast.GeneratorExp, ast.SetComp)) and len(it_.generators) == 1 and tasks_of(it_.generators[0].iter) is not None and \
+                    isinstance(it_.generators[0].target, ast.Name) and u(it_.elt) == u(it_.generators[0].target):
+                tl.append(("comp", n, tasks_of(it_.generators[0].iter), it_.generators[0]))
+    if len(tl) != 1:
+        chk.unknown("O20.5", f"the loop that builds the per-task lines from a race's tasks() is not located in _metrics_table ({len(tl)} candidate(s))", mt)
+    else:
+        kind, loop, src_, gen_ = tl[0]
+        var = loop.target.id if kind == "loop" else gen_.target.id
+        cond_nodes = [n_.test for n_ in ast.walk(loop) if isinstance(n_, ast.If)] if kind == "loop" else list(gen_.ifs)
+        tests = [t_ for t_ in cond_nodes if isinstance(t_, ast.Compare) and len(t_.ops) == 1 and isinstance(t_.ops[0], (ast.In, ast.NotIn)) and u(t_.left) == var and tasks_of(t_.comparators[0]) is not None]
+        detail = f"`{var}` of {src_[0]}.tasks()"
+        if not tests:
+            other_cond = cond_nodes or any(isinstance(n_, (ast.Try, ast.IfExp)) for n_ in ast.walk(loop))
+            if other_cond:
+                chk.unknown("O20.5", f"per-task lines: no membership test of {detail} in the other race's tasks() located (the loop is conditional in another way)", loop)
+            else:
+                chk.ob("O20.5", "per-task lines for the intersection of tasks", False, loop, detail + ": lines are built for every task of one race, no membership test in the other race's tasks")
+        else:
+            coll = tasks_of(tests[0].comparators[0])
+            detail += f" kept when in {coll[0]}.tasks()"
+            ok = other_race(src_, coll)
+            if not ok:
+                detail += "; membership is tested in the tasks of the SAME race"
+            elif kind == "comp":
+                ok = isinstance(tests[0].ops[0], ast.In)
+                detail += "" if ok else "; the comprehension keeps the tasks that are NOT in the other race"
+            else:
                 # polarity by evaluation of the loop body: lines for the task are produced when it is a member of the other race's tasks and none when it is not
                 # (`if t in X: ...` and `if t not in X: continue` read the same); switches on reporter attributes are taken as on
                 def produces(member):
                     def atom(n, env):
                         if any(n is t_ for t_ in tests):
                             return member if isinstance(n.ops[0], ast.In) else not member
-                        if isinstance(n, ast.Attribute) and isinstance(n.value, ast.Name) and n.value.id == params_of(mt)[0]:
+                        if isinstance(n, ast.Attribute) and isinstance(n.value, ast.Name) and n.value.id == recv_:
                             return True
                         return None
 
-                    o_ = decide(tl[0].body, atom, {})
-                    return any(isinstance(c_, ast.Call) and isinstance(c_.func, ast.Attribute) and isinstance(c_.func.value, ast.Name) and c_.func.value.id == params_of(mt)[0] and c_.func.attr in cm and
-                               any(isinstance(a_, ast.Name) and a_.id == tl[0].target.id for a_ in c_.args) for e_ in o_.effects for c_ in ast.walk(e_))
+                    o_ = decide(loop.body, atom, {})
+                    return bool(per_task_calls(o_.effects, var))
 
                 try:
                     ok = produces(True) and not produces(False)
                     if not ok:
                         detail += "; but the per-task lines are not produced exactly for the members"
                 except (Unsupported, UnknownAtom):
-                    pass
-    chk.ob("O20.5", "per-task lines for the intersection of tasks", ok, tl[0] if tl else mt, detail)
+                    pass  # the membership test in the other race's tasks was located; only its polarity could not be evaluated on this body
+            chk.ob("O20.5", "per-task lines for the intersection of tasks", ok, loop, detail)
     # the task list is consulted once per baseline task: it must be a re-iterable collection (a generator would be exhausted by the first membership test)
     met_ = repo.module("esrally/metrics.py")
     tk_ = met_.methods(met_.cls("GlobalStats")).get("tasks")
@@ -793,9 +1231,12 @@ def run(chk):
     trets = [n for n in walk_body(tk_) if isinstance(n, ast.Return)]
     gen = [r for r in trets if isinstance(r.value, ast.GeneratorExp) or (isinstance(r.value, ast.Call) and dotted(r.value.func) in ("map", "filter", "iter", "zip", "reversed"))] + \
           [n for n in walk_body(tk_) if isinstance(n, (ast.Yield, ast.YieldFrom))]
-    chk.ob("O20.5", "GlobalStats.tasks() returns a re-iterable collection", bool(trets) and not gen, gen[0] if gen else tk_,
-           "" if not gen else "single-use iterator: after the first membership test in the comparison loop every later common task is missed (and swapping the races changes the set of lines)",
-           key="esrally/metrics.py:GlobalStats.tasks:re-iterable")
+    if not trets and not gen:
+        chk.unknown("O20.5", "GlobalStats.tasks() has no return statement this rule can read", tk_)
+    else:
+        chk.ob("O20.5", "GlobalStats.tasks() returns a re-iterable collection", not gen, gen[0] if gen else tk_,
+               "" if not gen else "single-use iterator: after the first membership test in the comparison loop every later common task is missed (and swapping the races changes the set of lines)",
+               key="esrally/metrics.py:GlobalStats.tasks:re-iterable")
     from rules.C08 import record_key_agreement
 
     chk.use(met_)
@@ -810,71 +1251,110 @@ def run(chk):
         raise AnchorMissing("GlobalStats.metrics(task)")
     n_opt = 0
     opt_seen = {"B": set(), "C": set()}
+    absent = frozenset(OPTIONAL)
+    # roots of the reads: every `<race>.metrics(...)` call; a record (or sub-record) that is kept in a single-assignment local or handed to a helper method of the reporter is
+    # followed to the places where that local / parameter is read (hoisted lookups, extracted helpers), carrying the member path reached so far
+    work = []
     for name, f in cm.items():
         env = roles.env_for(f)
-        done = set()
         for root in [n for n in walk_body(f) if isinstance(n, ast.Call) and isinstance(n.func, ast.Attribute) and n.func.attr == "metrics"]:
-            role = roles.deps(root.func.value, env)
-            if role not in ({"B"}, {"C"}):
-                continue
-            role = next(iter(role))
-            top = root
-            while True:
-                p_ = source.parent(top)
-                if (isinstance(p_, (ast.Subscript, ast.Attribute)) and p_.value is top) or (isinstance(p_, ast.Call) and p_.func is top) or isinstance(p_, (ast.BoolOp, ast.IfExp)):
-                    top = p_
-                else:
-                    break
-            if id(top) in done:
-                continue
-            done.add(id(top))
-            root_text = u(root)
+            # a helper both races are handed to in turn reads the record for each of them
+            work += [(f, root, r_, (), 0) for r_ in sorted(roles.deps(root.func.value, env) & {"B", "C"})]
+    done = set()
+    while work:
+        f, root, role, path, depth = work.pop(0)
+        name = f.name
+        top = root
+        while True:
+            p_ = source.parent(top)
+            if (isinstance(p_, (ast.Subscript, ast.Attribute)) and p_.value is top) or (isinstance(p_, ast.Call) and p_.func is top) or isinstance(p_, (ast.BoolOp, ast.IfExp)):
+                top = p_
+            else:
+                break
+        if (id(top), role) in done:
+            continue
+        done.add((id(top), role))
+        root_text = u(root)
 
-            class _Sub(ast.NodeTransformer):
-                def visit_Call(self, n):
-                    return ast.Name(id="__rec__", ctx=ast.Load()) if u(n) == root_text else self.generic_visit(n)
+        class _Sub(ast.NodeTransformer):
+            def visit_Call(self, n):
+                return ast.Name(id="__rec__", ctx=ast.Load()) if isinstance(root, ast.Call) and u(n) == root_text else self.generic_visit(n)
 
-            expr = _Sub().visit(source.clone(top))
-            touched = []
-            val, err = None, None
-            try:
-                val = _Interp().ev(expr, {"__rec__": _Rec(frozenset(OPTIONAL), touched=touched)})
-            except minieval.CannotEval as e:
-                err = str(e)
-            except (Unsupported, UnknownAtom, TypeError, ValueError, AttributeError, KeyError, IndexError, ArithmeticError, RecursionError) as e:
-                err = f"{type(e).__name__}: {e}" if not isinstance(e, KeyError) else f"KeyError {e}"
-            if not touched:
-                continue  # selects mandatory members only (or its keys are not constants)
-            if err is not None and "KeyError" not in err:
-                chk.unknown("O20.5", f"{name}: the read `{short(top, 70)}` of an optional member cannot be evaluated on a record without it: {err}", top)
-                continue
-            # is the value dereferenced by the helper it is handed to (directly or through the local it is assigned to)?
-            stmt = source.enclosing_stmt(top)
-            local = stmt.targets[0].id if isinstance(stmt, ast.Assign) and stmt.value is top and len(stmt.targets) == 1 and isinstance(stmt.targets[0], ast.Name) else None
-            needs_mapping = False
-            for c_ in walk_body(f):
-                if isinstance(c_, ast.Call) and isinstance(c_.func, ast.Attribute) and isinstance(c_.func.value, ast.Name) and c_.func.value.id == params_of(f)[0] and c_.func.attr in cm and cm[c_.func.attr] is not line:
-                    for p_, a_ in bind_args(c_, cm[c_.func.attr]).items():
-                        if (a_ is top or (local is not None and isinstance(a_, ast.Name) and a_.id == local)) and \
-                                any(isinstance(x, (ast.Attribute, ast.Subscript)) and isinstance(x.value, ast.Name) and x.value.id == p_ for x in ast.walk(cm[c_.func.attr])):
-                            needs_mapping = True
-            member = ".".join(touched[0])
-            opt_seen[role].add(touched[0])
-            n_opt += 1
-            empty = val is None or (isinstance(val, dict) and not isinstance(val, _Rec) and len(val) == 0)
-            ok = err is None and empty and (isinstance(val, dict) or not needs_mapping)
-            why = "" if ok else (f"`{short(top, 70)}` raises KeyError: the whole comparison aborts ('Cannot compare') instead of skipping the line" if err is not None else
-                                 (f"`{short(top, 70)}` yields {val!r} for a race without the member: a line would be built from a value the race does not contain" if not empty else
-                                  f"`{short(top, 70)}` yields None, but the helper it is handed to dereferences it"))
-            chk.ob("O20.5", f"{name}: optional member `{member}` of the {'baseline' if role == 'B' else 'contender'}'s task result is read with a default ({OPTIONAL[touched[0]]})", ok, top, why,
-                   key=f"{_R}:ComparisonReporter.{name}:optional-member:{role}:{member}")
-    chk.ob("O20.5", "optional task-result members are read from both races alike (throughput mean, processing time: one read per race)", n_opt >= 4 and opt_seen["B"] == opt_seen["C"] == set(OPTIONAL), rep,
-           f"{n_opt} read(s); baseline: {sorted('.'.join(p_) for p_ in opt_seen['B'])}; contender: {sorted('.'.join(p_) for p_ in opt_seen['C'])}", key=f"{_R}:ComparisonReporter:optional-members-symmetric")
+            def visit_Name(self, n):
+                return ast.Name(id="__rec__", ctx=ast.Load()) if isinstance(root, ast.Name) and n.id == root.id else n
+
+        expr = _Sub().visit(source.clone(top))
+        touched = []
+        val, err = None, None
+        try:
+            val = _Interp().ev(expr, {"__rec__": _Rec(absent, path=path, touched=touched)})
+        except minieval.CannotEval as e:
+            err = str(e)
+        except (Unsupported, UnknownAtom, TypeError, ValueError, AttributeError, KeyError, IndexError, ArithmeticError, RecursionError) as e:
+            err = f"{type(e).__name__}: {e}" if not isinstance(e, KeyError) else f"KeyError {e}"
+        stmt = source.enclosing_stmt(top)
+        local = stmt.targets[0].id if isinstance(stmt, ast.Assign) and stmt.value is top and len(stmt.targets) == 1 and isinstance(stmt.targets[0], ast.Name) else None
+        if not touched:
+            # selects mandatory members only (or its keys are not constants): a (sub-)record that is stored or handed on is followed
+            if err is None and isinstance(val, _Rec) and depth < 4:
+                if local is not None and local in local_defs(f):
+                    work += [(f, x, role, val.path, depth + 1) for x in walk_body(f) if isinstance(x, ast.Name) and x.id == local and isinstance(x.ctx, ast.Load)]
+                if isinstance(stmt, ast.Return) and stmt.value is top and cm.get(f.name) is f:
+                    # the helper RETURNS the (sub-)record: followed to the calls of the helper that hand it this race
+                    base_ = root.func.value if isinstance(root, ast.Call) else root
+                    while isinstance(base_, (ast.Attribute, ast.Subscript)):
+                        base_ = base_.value
+                    for g in cm.values():
+                        genv = None
+                        for c_ in ast.walk(g):
+                            if isinstance(c_, ast.Call) and isinstance(c_.func, ast.Attribute) and c_.func.attr == f.name and isinstance(c_.func.value, ast.Name) and c_.func.value.id in params_of(g)[:1]:
+                                genv = genv if genv is not None else roles.env_for(g)
+                                arg_ = bind_args(c_, f).get(base_.id) if isinstance(base_, ast.Name) else None
+                                if arg_ is not None and roles.deps(arg_, genv) == {role}:
+                                    work.append((g, c_, role, val.path, depth + 1))
+                call_ = source.parent(top)
+                if isinstance(call_, ast.keyword):
+                    call_ = source.parent(call_)
+                if isinstance(call_, ast.Call) and isinstance(call_.func, ast.Attribute) and isinstance(call_.func.value, ast.Name) and call_.func.value.id in params_of(f)[:1] and \
+                        call_.func.attr in cm and cm[call_.func.attr] is not line:
+                    callee = cm[call_.func.attr]
+                    for p_, a_ in bind_args(call_, callee).items():
+                        if a_ is top and not any(isinstance(x, ast.Name) and x.id == p_ and isinstance(x.ctx, ast.Store) for x in ast.walk(callee)):
+                            work += [(callee, x, role, val.path, depth + 1) for x in walk_body(callee) if isinstance(x, ast.Name) and x.id == p_ and isinstance(x.ctx, ast.Load)]
+            continue
+        if err is not None and "KeyError" not in err:
+            chk.unknown("O20.5", f"{name}: the read `{short(top, 70)}` of an optional member cannot be evaluated on a record without it: {err}", top)
+            continue
+        # is the value dereferenced by the helper it is handed to (directly or through the local it is assigned to)?
+        needs_mapping = False
+        for c_ in walk_body(f):
+            if isinstance(c_, ast.Call) and isinstance(c_.func, ast.Attribute) and isinstance(c_.func.value, ast.Name) and c_.func.value.id == params_of(f)[0] and c_.func.attr in cm and cm[c_.func.attr] is not line:
+                for p_, a_ in bind_args(c_, cm[c_.func.attr]).items():
+                    if (a_ is top or (local is not None and isinstance(a_, ast.Name) and a_.id == local)) and \
+                            any(isinstance(x, (ast.Attribute, ast.Subscript)) and isinstance(x.value, ast.Name) and x.value.id == p_ for x in ast.walk(cm[c_.func.attr])):
+                        needs_mapping = True
+        member = ".".join(touched[0])
+        opt_seen[role].add(touched[0])
+        n_opt += 1
+        empty = val is None or (isinstance(val, dict) and not isinstance(val, _Rec) and len(val) == 0)
+        ok = err is None and empty and (isinstance(val, dict) or not needs_mapping)
+        why = "" if ok else (f"`{short(top, 70)}` raises KeyError: the whole comparison aborts ('Cannot compare') instead of skipping the line" if err is not None else
+                             (f"`{short(top, 70)}` yields {val!r} for a race without the member: a line would be built from a value the race does not contain" if not empty else
+                              f"`{short(top, 70)}` yields None, but the helper it is handed to dereferences it"))
+        chk.ob("O20.5", f"{name}: optional member `{member}` of the {'baseline' if role == 'B' else 'contender'}'s task result is read with a default ({OPTIONAL[touched[0]]})", ok, top, why,
+               key=f"{_R}:ComparisonReporter.{name}:optional-member:{role}:{member}")
+    # the summary is about reads that WERE located: a member whose read could not be located in one of the races is "not recognised", never a finding
+    missing = [f"{'baseline' if r_ == 'B' else 'contender'}: {'.'.join(m_)}" for r_ in ("B", "C") for m_ in sorted(OPTIONAL) if m_ not in opt_seen[r_]]
+    if missing:
+        chk.unknown("O20.5", f"the read of an optional task-result member was not located ({'; '.join(missing)}): the record is selected in a shape this rule does not follow", rep)
+    else:
+        chk.ob("O20.5", "optional task-result members are read from both races alike (throughput mean, processing time: one read per race)", n_opt >= 4 and opt_seen["B"] == opt_seen["C"] == set(OPTIONAL), rep,
+               f"{n_opt} read(s); baseline: {sorted('.'.join(p_) for p_ in opt_seen['B'])}; contender: {sorted('.'.join(p_) for p_ in opt_seen['C'])}", key=f"{_R}:ComparisonReporter:optional-members-symmetric")
     # scalar guards
     n_guard = 0
     for f, c in sites:
         b = bind_args(c, line)
-        for side in ("baseline", "contender"):
+        for side in (P_BASE, P_CONT):
             opnd = b.get(side)
             if opnd is None or not isinstance(opnd, ast.Attribute):
                 continue
@@ -898,22 +1378,35 @@ def run(chk):
             nullable.add(n.targets[0].attr)
     n_it = 0
     for name, f in cm.items():
-        ps_ = [p_ for p_ in params_of(f) if p_ != "self"]
+        ps_ = params_of(f)[1:]
         gf = cfg_of(f)
-        for lp in [n for n in walk_body(f) if isinstance(n, ast.For) and isinstance(n.iter, ast.Attribute) and isinstance(n.iter.value, ast.Name) and n.iter.value.id in ps_ and n.iter.attr in nullable]:
-            race = lp.iter.value.id
+        fdefs_ = local_defs(f)
+        for loop_ in [n for n in walk_body(f) if isinstance(n, ast.For)]:
+            # the iterated list by role: `<race parameter>.<optional statistic>`, directly, through a hoisted single-assignment local, or defaulted (`... or []`)
+            it_ = source.inline_node(loop_.iter, fdefs_)
+            defaulted = isinstance(it_, ast.BoolOp) and isinstance(it_.op, ast.Or) and len(it_.values) == 2 and isinstance(it_.values[1], (ast.List, ast.Tuple)) and not it_.values[1].elts
+            if defaulted:
+                it_ = it_.values[0]
+            if not (isinstance(it_, ast.Attribute) and isinstance(it_.value, ast.Name) and it_.value.id in ps_ and it_.attr in nullable):
+                continue
+            race = it_.value.id
             n_it += 1
-            tests = []
+            none_test = lambda d_, op=ast.Is: isinstance(d_, ast.Compare) and len(d_.ops) == 1 and isinstance(d_.ops[0], op) and source.is_const(d_.comparators[0], None) \
+                and isinstance(d_.left, ast.Attribute) and isinstance(d_.left.value, ast.Name) and d_.left.value.id == race  # noqa: E731
+            tests = [loop_] if defaulted else []
             for t in [n for n in walk_body(f) if isinstance(n, ast.If)]:
                 parts = t.test.values if isinstance(t.test, ast.BoolOp) and isinstance(t.test.op, ast.Or) else [t.test]
-                none_test = lambda d_: isinstance(d_, ast.Compare) and len(d_.ops) == 1 and isinstance(d_.ops[0], ast.Is) and source.is_const(d_.comparators[0], None) \
-                    and isinstance(d_.left, ast.Attribute) and isinstance(d_.left.value, ast.Name) and d_.left.value.id == race  # noqa: E731
-                if any(none_test(d_) for d_ in parts) and any(isinstance(x, ast.Return) for x in t.body) and gf.dominated_by_nodes(gf.node_of(lp), [gf.node_of(t)]):
+                if any(none_test(d_) for d_ in parts) and any(isinstance(x, (ast.Return, ast.Raise)) for x in t.body) and gf.dominated_by_nodes(gf.node_of(loop_), [gf.node_of(t)]):
                     tests.append(t)
-            chk.ob("O20.5", f"{name}: `{u(lp.iter)}` (None for a race stored without it) is None-tested before it is iterated", bool(tests), lp,
+            # the same fact as an enclosing positive guard: `if <race>.<statistic> is not None [and ...]: for ...` (or the else arm of an `is None [or ...]` test)
+            for t_, pol in guards(loop_, path_sensitive=True):
+                conj = t_.values if isinstance(t_, ast.BoolOp) and isinstance(t_.op, ast.And if pol else ast.Or) else [t_]
+                if any(none_test(d_, ast.IsNot if pol else ast.Is) for d_ in conj):
+                    tests.append(t_)
+            chk.ob("O20.5", f"{name}: `{u(it_)}` (None for a race stored without it) is None-tested before it is iterated", bool(tests), loop_,
                    "" if tests else f"no `{race}.<statistic> is None` test with an early return dominates the loop: the comparison crashes when only this race lacks the statistic",
-                   key=f"{_R}:ComparisonReporter.{name}:iterated-nullable:{u(lp.iter)}")
-    chk.ob("O20.5", "iterated optional statistics located", n_it >= 2, rep, f"{n_it} loop(s) over optional list-valued statistics")
+                   key=f"{_R}:ComparisonReporter.{name}:iterated-nullable:{u(it_)}")
+    located(n_it >= 2, "O20.5", "iterated optional statistics located", rep, f"{n_it} loop(s) over optional list-valued statistics")
     # what the comparison reads as statistic X of a stored race IS statistic X: every results attribute the comparison selects is initialised from the stored key of the same name
     init_keys = {}
     for n in walk_body(gsi):
@@ -921,16 +1414,24 @@ def run(chk):
             init_keys[n.targets[0].attr] = (n.value.args[1].value, n)
     read_attrs = set()
     for name, f in cm.items():
+        env = roles.env_for(f)
         for x in ast.walk(f):
-            if isinstance(x, ast.Attribute) and isinstance(x.value, ast.Name) and x.value.id in ("baseline_stats", "contender_stats", "stats") and x.attr in init_keys:
+            # an attribute of a RACE: the receiver is a name the role dataflow reaches from one of the two compared races (whatever it is called)
+            if isinstance(x, ast.Attribute) and isinstance(x.value, ast.Name) and env.get(x.value.id) and x.attr in init_keys:
                 read_attrs.add(x.attr)
             if isinstance(x, ast.Call) and dotted(x.func) == "getattr" and len(x.args) >= 2 and isinstance(x.args[1], ast.JoinedStr):
                 suffix = "".join(str(v.value) for v in x.args[1].values if isinstance(v, ast.Constant))
                 read_attrs |= {a_ for a_ in init_keys if suffix and a_.endswith(suffix)}
+            if isinstance(x, ast.Call) and dotted(x.func) == "getattr" and len(x.args) >= 2 and isinstance(x.args[1], ast.Name) and env.get(getattr(x.args[0], "id", None)):
+                # the attribute name is a column of a literal table the call is iterated over
+                for row_ in table_rows(x) or []:
+                    v_ = row_.get(x.args[1].id)
+                    if isinstance(v_, ast.Constant) and v_.value in init_keys:
+                        read_attrs.add(v_.value)
     for a_ in sorted(read_attrs):
         k_, n_ = init_keys[a_]
         chk.ob("O20.2", f"compared statistic `{a_}` is read back from the stored key of the same name", k_ == a_, n_, f"GlobalStats.{a_} <- key '{k_}'", key=f"esrally/metrics.py:GlobalStats.__init__:{a_}")
-    chk.ob("O20.2", "compared statistics located in the results class", len(read_attrs) >= 30, gsi, f"{len(read_attrs)} attribute(s)")
+    located(len(read_attrs) >= 30, "O20.2", "compared statistics located in the results class", gsi, f"{len(read_attrs)} attribute(s)")
     # the Diff column is formatter(contender - baseline) while the value columns show formatter(baseline) / formatter(contender): that is the same difference only for a LINEAR
     # formatter (a fixed unit conversion). A formatter that picks its unit per value (by magnitude) scales the three numbers independently.
     cv = repo.module("esrally/utils/convert.py")
@@ -960,17 +1461,31 @@ def run(chk):
 
     n_fmt = 0
     for f, c in sites:
-        fm = bind_args(c, line).get("formatter")
+        fm = bind_args(c, line).get(P_FMT)
         if fm is None:
             continue
         n_fmt += 1
+        lab = label_text(bind_args(c, line).get(P_METRIC)) or site_label.get(id(c)) or "?"
+        # the formatter by value: through single-assignment locals of the enclosing function(s) and module-level names of the reporter module
+        encl = [g for g in [source.enclosing_func(c), f] if g is not None]
+        for g in encl:
+            fm = source.inline_node(fm, local_defs(g))
+        if isinstance(fm, ast.Name) and rp.module_constant(fm.id) is not None:
+            fm = rp.module_constant(fm.id)
         verdict, why = True, "linear"
         tgt, nbound = fm, 0
         if isinstance(fm, ast.Call) and last_attr(fm.func) == "partial" and fm.args:
             tgt, nbound = fm.args[0], len(fm.args) - 1
+        if isinstance(tgt, ast.Lambda) and len(tgt.args.args) == 1 and isinstance(tgt.body, ast.Call) and (dotted(tgt.body.func) or "").startswith("convert.") and not tgt.body.keywords and \
+                [u(a_) for a_ in tgt.body.args] == [tgt.args.args[0].arg]:
+            tgt = tgt.body.func  # lambda v: convert.f(v) is convert.f
         if isinstance(tgt, ast.Lambda):
-            verdict = not any(isinstance(x, (ast.Compare, ast.IfExp, ast.Call)) for x in ast.walk(tgt.body))
-            why = "lambda"
+            if any(isinstance(x, (ast.Compare, ast.IfExp)) for x in ast.walk(tgt.body)):
+                verdict, why = False, "lambda that decides by the value"
+            elif any(isinstance(x, ast.Call) for x in ast.walk(tgt.body)):
+                verdict, why = None, f"lambda that calls a function: {short(tgt, 50)}"
+            else:
+                why = "lambda"
         elif isinstance(tgt, ast.Call) and dotted(tgt.func) == "convert.factor":
             why = "constant factor"
         elif (dotted(tgt) or "").startswith("convert."):
@@ -980,12 +1495,16 @@ def run(chk):
                 verdict = nbound < len(ps_) and not _nonlinear(fn_, ps_[nbound])
                 why = f"convert.{fn_.name}" + ("" if verdict else " chooses its scale from the magnitude of the value")
             except AnchorMissing:
-                verdict, why = False, f"{dotted(tgt)} not found in convert.py"
+                verdict, why = None, f"{dotted(tgt)} not found in convert.py"
         else:
-            verdict, why = False, f"unrecognised formatter {short(fm, 40)}"
+            verdict, why = None, f"unrecognised formatter {short(fm, 40)}"
+        if verdict is None:
+            # the formatter was not resolved to a function this rule can read: not recognised, never a finding
+            chk.unknown("O20.3", f"{f.name}: '{lab}': whether the line's formatter is a fixed (linear) unit conversion cannot be decided: {why}", c)
+            continue
         chk.ob("O20.3", f"{f.name}: the line's formatter is a fixed (linear) unit conversion", verdict, c, why + ("" if verdict else ": baseline, contender and their difference are each scaled to their own unit, so the Diff column is not contender minus baseline in the line's unit"),
-               key=f"{_R}:ComparisonReporter.{f.name}:linear-formatter:{label_text(bind_args(c, line).get('metric')) or '?'}")
-    chk.ob("O20.3", "formatters of comparison lines located", n_fmt >= 10, line, f"{n_fmt} line(s) with a formatter")
+               key=f"{_R}:ComparisonReporter.{f.name}:linear-formatter:{lab}")
+    located(n_fmt >= 10, "O20.3", "formatters of comparison lines located", line, f"{n_fmt} line(s) with a formatter")
     # list-valued statistics are paired by id in nested loops (for b in baseline.X: for c in contender.X: if c[K] == <id>): the id compared with is the one of the CURRENT baseline
     # element — bound inside this outer loop from its loop variable (a name left over from an earlier loop pairs every element with the last one of that loop)
     n_pair = 0
@@ -1002,13 +1521,23 @@ def run(chk):
                         continue
                     n_pair += 1
                     idv = m_["id"]
-                    binds_here = [n for n in outer.body if isinstance(n, ast.Assign) and any(isinstance(x, ast.Name) and x.id == idv for x in n.targets)
-                                  and pat.match(n.value, f"V_b[{m_['k']}]", binds={"b": outer.target.id}) is not None and n.lineno < inner.lineno]
-                    ok = len(binds_here) == 1
-                    chk.ob("O20.2", f"{name}: `{u(inner.iter)}` paired with the current element of `{u(outer.iter)}`", ok, t,
-                           f"`{u(t.test)}`" + ("" if ok else f": `{idv}` is not bound from `{outer.target.id}[{m_['k']}]` inside this loop — it still holds the value an earlier loop left behind"),
-                           key=f"{_R}:ComparisonReporter.{name}:pairing:{u(outer.iter)}")
-    chk.ob("O20.2", "id-paired statistics located", n_pair >= 5, rep, f"{n_pair} pairing test(s)")
+                    inst = f"{name}: `{u(inner.iter)}` paired with the current element of `{u(outer.iter)}`"
+                    # where the id compared with comes from: bound inside THIS outer loop (before the inner loop) from the outer loop's element - subscript or .get(), same key
+                    here = [n for s_ in outer.body if s_.lineno < inner.lineno for n in ast.walk(s_) if isinstance(n, ast.Assign) and any(isinstance(x, ast.Name) and x.id == idv for x in n.targets)]
+                    elsewhere = [n for n in ast.walk(f) if isinstance(n, (ast.Assign, ast.For)) and n not in here and
+                                 any(isinstance(x, ast.Name) and x.id == idv and isinstance(x.ctx, ast.Store) for t_ in (n.targets if isinstance(n, ast.Assign) else [n.target]) for x in ast.walk(t_))]
+                    from_elem = [n for n in here if pat.match(n.value, f"V_b[{m_['k']}]", binds={"b": outer.target.id}) is not None or pat.match(n.value, f"V_b.get({m_['k']})", binds={"b": outer.target.id}) is not None]
+                    if len(here) == 1 and from_elem:
+                        ok, why = True, ""
+                    elif here and all(any(isinstance(x, ast.Name) and x.id == outer.target.id for x in ast.walk(n.value)) for n in here):
+                        ok, why = False, f": `{idv}` is bound from `{u(here[0].value)}`, not from `{outer.target.id}[{m_['k']}]` - the two lists are paired by different members"
+                    elif not here and elsewhere:
+                        ok, why = False, f": `{idv}` is not bound from `{outer.target.id}[{m_['k']}]` inside this loop — it still holds the value an earlier loop left behind"
+                    else:
+                        chk.unknown("O20.2", f"{inst}: where `{idv}` in `{u(t.test)}` comes from cannot be derived", t)
+                        continue
+                    chk.ob("O20.2", inst, ok, t, f"`{u(t.test)}`" + why, key=f"{_R}:ComparisonReporter.{name}:pairing:{u(outer.iter)}")
+    located(n_pair >= 5, "O20.2", "id-paired statistics located", rep, f"{n_pair} pairing test(s)")
     # asymmetric None guards -> advisory
     for name, f in cm.items():
         for n in walk_body(f):
@@ -1065,4 +1594,185 @@ VARIANTS = [
        '        contender_processing_time = (contender_stats.metrics(task)["processing_time"] if "processing_time" in contender_stats.metrics(task) else None) or {}')],
     # benign x7: the divisor is a magnitude since F31, `d > 0` and `d` decide alike
     V("zero-safe division tests d > 0 (divisor is |baseline|)", "keep", _R, "            return n / d if d else 0", "            return n / d if d > 0 else 0"),
+]
+
+# ---- hardening round 2: realistic refactored shapes (benign b1 / b3 and relatives) and the same defects placed INSIDE the refactored shape ----
+_DIFF_HEAD = (
+    "    def _diff(self, baseline, contender, treat_increase_as_improvement, formatter=lambda x: x, as_percentage=False):\n"
+    "        def identity(x):\n            return x\n\n        def _safe_divide(n, d):\n            return n / d if d else 0\n\n"
+    "        if self.plain:\n            color_greater = identity\n            color_smaller = identity\n            color_neutral = identity\n"
+    "        elif treat_increase_as_improvement:\n            color_greater = console.format.green\n            color_smaller = console.format.red\n            color_neutral = console.format.neutral\n"
+    "        else:\n            color_greater = console.format.red\n            color_smaller = console.format.green\n            color_neutral = console.format.neutral\n\n"
+    "        if as_percentage:\n"
+    "            # relative to the magnitude of the baseline: the sign is the one of the absolute difference also for negative baselines\n"
+    "            diff = _safe_divide(contender - baseline, abs(baseline)) * 100.0\n"
+)
+
+
+def _extracted(uncolored="message", plain_zero="self._uncolored", dec_arm="console.format.red, console.format.green", shared=False):
+    """the b1 shape: colour selection in a helper method that returns a tuple, identity and zero-safe division as static methods"""
+    return (
+        "    @staticmethod\n    def _uncolored(message):\n        return " + uncolored + "\n\n"
+        "    @staticmethod\n    def _safe_divide(n, d):\n        return n / d if d else 0\n\n"
+        "    def _diff_colors(self, treat_increase_as_improvement):\n"
+        "        \"\"\"Chooses how differences are highlighted.\"\"\"\n"
+        "        if self.plain:\n            return self._uncolored, self._uncolored, " + plain_zero + "\n"
+        "        if treat_increase_as_improvement:\n            return console.format.green, console.format.red, console.format.neutral\n"
+        "        return " + dec_arm + ", console.format.neutral\n\n"
+        + ("    def _headline(self, text):\n        return self._diff_colors(True)[0](text)\n\n" if shared else "") +
+        "    def _diff(self, baseline, contender, treat_increase_as_improvement, formatter=lambda x: x, as_percentage=False):\n"
+        "        color_greater, color_smaller, color_neutral = self._diff_colors(treat_increase_as_improvement)\n\n"
+        "        if as_percentage:\n"
+        "            # relative to the magnitude of the baseline: the sign is the one of the absolute difference also for negative baselines\n"
+        "            diff = self._safe_divide(contender - baseline, abs(baseline)) * 100.0\n"
+    )
+
+
+_THR_OLD = (
+    '        b_min = baseline_stats.metrics(task)["throughput"]["min"]\n        b_mean = baseline_stats.metrics(task)["throughput"].get("mean")\n'
+    '        b_median = baseline_stats.metrics(task)["throughput"]["median"]\n        b_max = baseline_stats.metrics(task)["throughput"]["max"]\n'
+    '        b_unit = baseline_stats.metrics(task)["throughput"]["unit"]\n\n'
+    '        c_min = contender_stats.metrics(task)["throughput"]["min"]\n        c_mean = contender_stats.metrics(task)["throughput"].get("mean")\n'
+    '        c_median = contender_stats.metrics(task)["throughput"]["median"]\n        c_max = contender_stats.metrics(task)["throughput"]["max"]\n'
+)
+
+
+def _hoisted(b_mean='baseline_throughput.get("mean")', c_median='contender_throughput["median"]'):
+    """the b3 shape: the throughput record of each race looked up once"""
+    return (
+        '        baseline_throughput = baseline_stats.metrics(task)["throughput"]\n        b_min = baseline_throughput["min"]\n        b_mean = ' + b_mean + '\n'
+        '        b_median = baseline_throughput["median"]\n        b_max = baseline_throughput["max"]\n        b_unit = baseline_throughput["unit"]\n\n'
+        '        contender_throughput = contender_stats.metrics(task)["throughput"]\n        c_min = contender_throughput["min"]\n        c_mean = contender_throughput.get("mean")\n'
+        '        c_median = ' + c_median + '\n        c_max = contender_throughput["max"]\n'
+    )
+
+
+_TASK_LOOP = (
+    "        for t in baseline_stats.tasks():\n            if t in contender_stats.tasks():\n"
+    "                metrics_table.extend(self._report_throughput(baseline_stats, contender_stats, t))\n"
+    "                metrics_table.extend(self._report_latency(baseline_stats, contender_stats, t))\n"
+    "                metrics_table.extend(self._report_service_time(baseline_stats, contender_stats, t))\n"
+    "                if self.show_processing_time:\n"
+    "                    metrics_table.extend(self._report_processing_time(baseline_stats, contender_stats, t))\n"
+    "                metrics_table.extend(self._report_error_rate(baseline_stats, contender_stats, t))\n"
+)
+
+
+def _filtered_loop(cond="t in contender_tasks"):
+    return (
+        "        contender_tasks = contender_stats.tasks()\n        common_tasks = [t for t in baseline_stats.tasks() if " + cond + "]\n        for t in common_tasks:\n"
+        "            metrics_table.extend(self._report_throughput(baseline_stats, contender_stats, t))\n"
+        "            metrics_table.extend(self._report_latency(baseline_stats, contender_stats, t))\n"
+        "            metrics_table.extend(self._report_service_time(baseline_stats, contender_stats, t))\n"
+        "            if self.show_processing_time:\n"
+        "                metrics_table.extend(self._report_processing_time(baseline_stats, contender_stats, t))\n"
+        "            metrics_table.extend(self._report_error_rate(baseline_stats, contender_stats, t))\n"
+    )
+
+
+_ROW_OLD = (
+    "        if baseline is not None and contender is not None:\n            return [\n                metric,\n                str(task),\n                formatter(baseline),\n"
+    "                formatter(contender),\n                self._diff(baseline, contender, treat_increase_as_improvement, formatter),\n                unit,\n"
+    "                self._diff(baseline, contender, treat_increase_as_improvement, formatter, as_percentage=True),\n            ]\n        else:\n            return []\n"
+)
+
+
+def _row_by_parts(operands="baseline, contender", guard="baseline is None or contender is None"):
+    return (
+        "        if " + guard + ":\n            return []\n"
+        "        operands = (" + operands + ", treat_increase_as_improvement, formatter)\n"
+        "        absolute = self._diff(*operands)\n        relative = self._diff(*operands, as_percentage=True)\n"
+        "        row = [metric, str(task)]\n        row += [formatter(baseline), formatter(contender)]\n        row += [absolute, unit, relative]\n        return row\n"
+    )
+
+
+_THR_FLAG = 'task, b_unit, treat_increase_as_improvement=True'
+_THR_JOIN = '        return self._join(\n            self._line("Min Throughput", b_min'
+_CONSOLE = "    print_internal(formatter(headers, data_rich))\n"
+
+VARIANTS += [
+    # b1: colour selection extracted into a helper method (tuple result), identity / division as static methods
+    V("h2 b1 shape: colour selection in a helper method, static identity and division", "keep", _R, _DIFF_HEAD, _extracted()),
+    V("h2 b1 shape, defect in the helper: red/green exchanged in the decrease arm of _diff_colors", "break", _R, _DIFF_HEAD, _extracted(dec_arm="console.format.green, console.format.red"), "O20.3"),
+    V("h2 b1 shape, defect in the helper: plain arm keeps the neutral colour function for zero", "break", _R, _DIFF_HEAD, _extracted(plain_zero="console.format.neutral"), "O20.3"),
+    V("h2 b1 shape, defect in the static identity: it drops the '+' of the text", "break", _R, _DIFF_HEAD, _extracted(uncolored='message.lstrip("+")'), "O20.3"),
+    V("h2 colour table as a dict lookup on the flag", "keep", _R,
+      "        elif treat_increase_as_improvement:\n            color_greater = console.format.green\n            color_smaller = console.format.red\n            color_neutral = console.format.neutral\n"
+      "        else:\n            color_greater = console.format.red\n            color_smaller = console.format.green\n            color_neutral = console.format.neutral\n",
+      "        else:\n            color_greater, color_smaller = {True: (console.format.green, console.format.red), False: (console.format.red, console.format.green)}[bool(treat_increase_as_improvement)]\n"
+      "            color_neutral = console.format.neutral\n"),
+    V("h2 colour table as a dict lookup, rows exchanged", "break", _R,
+      "        elif treat_increase_as_improvement:\n            color_greater = console.format.green\n            color_smaller = console.format.red\n            color_neutral = console.format.neutral\n"
+      "        else:\n            color_greater = console.format.red\n            color_smaller = console.format.green\n            color_neutral = console.format.neutral\n",
+      "        else:\n            color_greater, color_smaller = {False: (console.format.green, console.format.red), True: (console.format.red, console.format.green)}[bool(treat_increase_as_improvement)]\n"
+      "            color_neutral = console.format.neutral\n", "O20.3"),
+    V("h2 the plain flag read outside the difference cell (task cell emphasised on the console only)", "break", _R, "                str(task),\n                formatter(baseline),",
+      "                str(task) if self.plain else console.format.bold(str(task)),\n                formatter(baseline),", "O20.4"),
+    # b3: hoisted lookups
+    V("h2 b3 shape: throughput record of each race looked up once", "keep", _R, _THR_OLD, _hoisted()),
+    V("h2 b3 shape, defect behind the hoisted local: contender median selects max", "break", _R, _THR_OLD, _hoisted(c_median='contender_throughput["max"]'), "O20.2"),
+    V("h2 b3 shape, defect behind the hoisted local: optional mean by subscript", "break", _R, _THR_OLD, _hoisted(b_mean='baseline_throughput["mean"]'), "O20.5"),
+    # task intersection as a filtering comprehension over a hoisted task list
+    V("h2 common tasks by a filtering comprehension", "keep", _R, _TASK_LOOP, _filtered_loop()),
+    V("h2 common tasks by a filtering comprehension: keeps the tasks missing in the contender", "break", _R, _TASK_LOOP, _filtered_loop("t not in contender_tasks"), "O20.5"),
+    V("h2 common tasks by a filtering comprehension: membership in the same race", "break", _R, _TASK_LOOP, _filtered_loop("t in baseline_stats.tasks()"), "O20.5"),
+    # _line built in parts (guard clause, operands tuple, star call, row assembled incrementally)
+    V("h2 _line: guard clause, operands tuple passed with *, row assembled in parts", "keep", _R, _ROW_OLD, _row_by_parts()),
+    V("h2 _line in parts: operands tuple in the wrong order", "break", _R, _ROW_OLD, _row_by_parts(operands="contender, baseline"), "O20.3"),
+    V("h2 _line in parts: truthiness guard clause", "break", _R, _ROW_OLD, _row_by_parts(guard="not baseline or not contender"), "O20.5"),
+    # direction flag through a local
+    [V("h2 direction flag of the throughput lines through a local", "keep", _R, _THR_FLAG, "task, b_unit, treat_increase_as_improvement=higher_is_better", count=4),
+     V("", "keep", _R, _THR_JOIN, "        higher_is_better = True\n" + _THR_JOIN)],
+    [V("h2 direction flag of the throughput lines through a local holding the wrong value", "break", _R, _THR_FLAG, "task, b_unit, treat_increase_as_improvement=higher_is_better", "O20.1", count=4),
+     V("", "break", _R, _THR_JOIN, "        higher_is_better = False\n" + _THR_JOIN)],
+    # writer: rendered text kept in a local
+    V("h2 writer renders into a local first", "keep", _R, _CONSOLE, "    rendered_for_console = formatter(headers, data_rich)\n    print_internal(rendered_for_console)\n"),
+    V("h2 writer renders into a local first: the plain table goes to the console", "break", _R, _CONSOLE, "    rendered_for_console = formatter(headers, data_plain)\n    print_internal(rendered_for_console)\n", "O20.4"),
+    # optional list statistics guarded positively instead of by an early return
+    V("h2 nullable list statistics: defaulted iteration instead of relying on the early return", "keep", _R,
+      "        for baseline in baseline_stats.total_transform_processing_times:", "        for baseline in baseline_stats.total_transform_processing_times or []:"),
+]
+
+
+# the throughput record looked up by an extracted helper method (the most common refactoring): roles, selections and optional reads are followed through the helper
+_REC_RE = r'(baseline|contender)_stats\.metrics\(task\)\["throughput"\]'
+_REC_NEW = r"self._throughput_of(\1_stats, task)"
+_REC_DEF = "    def _report_throughput(self, baseline_stats, contender_stats, task):\n"
+_REC_HELPER = '    def _throughput_of(self, stats, task):\n        return stats.metrics(task)["throughput"]\n\n' + _REC_DEF
+
+
+def _via_helper(name, kind, old=None, new=None, rule=None):
+    head = [V(name, kind, _R, _REC_RE, _REC_NEW, rule, count=9, regex=True), V("", kind, _R, _REC_DEF, _REC_HELPER)]
+    return head + ([V("", kind, _R, old, new)] if old else [])
+
+
+VARIANTS += [
+    _via_helper("h2 throughput record by an extracted helper method", "keep"),
+    _via_helper("h2 helper shape: contender median selects max", "break", 'c_median = self._throughput_of(contender_stats, task)["median"]', 'c_median = self._throughput_of(contender_stats, task)["max"]', "O20.2"),
+    _via_helper("h2 helper shape: contender median read from the baseline race", "break", 'c_median = self._throughput_of(contender_stats, task)["median"]',
+                'c_median = self._throughput_of(baseline_stats, task)["median"]', "O20.2"),
+    _via_helper("h2 helper shape: optional mean by subscript on the helper's record", "break", 'b_mean = self._throughput_of(baseline_stats, task).get("mean")',
+                'b_mean = self._throughput_of(baseline_stats, task)["mean"]', "O20.5"),
+]
+
+
+# a sequence of line constructions turned into a loop over a literal table: one line per row
+_SEG_RE = r"    def _report_segment_memory\(self, baseline_stats, contender_stats\):\n.*?(?=    def _report_segment_counts)"
+
+
+def _seg_table(flag="False", swap=False):
+    ops = ("getattr(contender_stats, attribute),\n                getattr(baseline_stats, attribute),\n" if swap else "getattr(baseline_stats, attribute),\n                getattr(contender_stats, attribute),\n")
+    return (
+        "    def _report_segment_memory(self, baseline_stats, contender_stats):\n        lines = []\n        for label, attribute in (\n"
+        '            ("Heap used for segments", "memory_segments"),\n            ("Heap used for doc values", "memory_doc_values"),\n            ("Heap used for terms", "memory_terms"),\n'
+        '            ("Heap used for norms", "memory_norms"),\n            ("Heap used for points", "memory_points"),\n            ("Heap used for stored fields", "memory_stored_fields"),\n        ):\n'
+        "            line = self._line(\n                label,\n                " + ops + '                "",\n                "MB",\n'
+        "                treat_increase_as_improvement=" + flag + ",\n                formatter=convert.bytes_to_mb,\n            )\n            self._append_non_empty(lines, line)\n        return lines\n\n"
+    )
+
+
+VARIANTS += [
+    V("h2 segment memory lines from a literal table", "keep", _R, _SEG_RE, _seg_table(), regex=True),
+    V("h2 segment memory lines from a literal table: direction flag inverted", "break", _R, _SEG_RE, _seg_table(flag="True"), "O20.1", regex=True),
+    V("h2 segment memory lines from a literal table: operands exchanged", "break", _R, _SEG_RE, _seg_table(swap=True), "O20.2", regex=True),
 ]
